@@ -1,1653 +1,39 @@
-(* C03, bytecode level: the compiler model L2/Compile.v and the VM model L2/Vm.v simulate the
-   reference interpreter Lang/Interp.v (forward simulation, Ok runs).
-   Part 1: a folded constant is what evaluation yields, for ANY fuel (inversion form of C04's
-   fold_agrees, which needs fuel >= depth).  Part 2: expressions.  Part 3: statements. *)
+(* C03, bytecode level: the levels combined; whole templates. *)
 From MJ Require Import Common.Base Lang.Syntax Lang.Meta Lang.Interp.
 From MJ Require Import C04.Model.
-From MJ Require Import C04.Spec.
-From MJ Require Import C04.Proofs.
 From MJ Require Import C03.Proofs.
 From MJ Require Import L2.Instr.
 From MJ Require Import L2.Compile.
 From MJ Require Import L2.Vm.
-From MJ Require Import L2.Simulation.
-From MJ Require Import C03.L2Relab.
+From MJ Require Import L2.Simulation C03.L2Pos C03.L2Base C03.L2Relab C03.L2Inv C03.L2Hdl C03.L2Expr C03.L2Stmt C03.L2Wf.
 Local Open Scope nat_scope.
 
-(* ------------------------------------------------------------------------------------------ *)
-(* Part 1: as_const e = Some v0 and eval .. e = Ok (v, s') imply v = v0, s' = s                 *)
-(* ------------------------------------------------------------------------------------------ *)
-Section FoldEval.
-Variable c : cfg.
-Variable esc : bool.
-Let m := c_mode c.
-
-Lemma u_is_true_ok md v b : u_is_true md v = Ok b -> b = truthy v.
-Proof. destruct md, v; cbn; intros H; inversion H; reflexivity. Qed.
-
-Definition fold_inv (fuel : nat) (e : expr) : Prop :=
-  forall v0, as_const e = Some v0 ->
-  forall s v s', eval c fuel esc s e = Ok (v, s') -> v = v0 /\ s' = s.
-
-Lemma const_values_inv fuel items vs :
-  const_values items = Some vs ->
-  forall s ws s', map_eval (eval c fuel esc) s items = Ok (ws, s') -> ws = vs /\ s' = s.
-Proof.
-  revert vs. induction items as [|x r IH]; intros vs H s ws s' He.
-  - inversion H. cbn in He. inversion He. auto.
-  - destruct x; try discriminate. cbn [const_values] in H.
-    destruct (const_values r) as [vr|] eqn:E; try discriminate. inversion H; subst.
-    cbn [map_eval] in He. destruct fuel as [|fuel']; [discriminate|].
-    rewrite eval_const in He. cbn [bind] in He.
-    fold (map_eval (eval c (S fuel') esc)) in He.
-    destruct (map_eval (eval c (S fuel') esc) s r) as [[ws1 s1]| | |] eqn:Er; try discriminate.
-    cbn [bind] in He. inversion He; subst.
-    destruct (IH vr eq_refl _ _ _ Er) as [-> ->]. auto.
-Qed.
-
-Lemma fold_chain_inv fuel rest :
-  (forall p, In p rest -> fold_inv fuel (snd p)) ->
-  forall left v0, is_undef left = false -> fold_chain as_const left rest = Some v0 ->
-  forall s v s', cmp_chain m (eval c fuel esc) left s rest = Ok (v, s') -> v = v0 /\ s' = s.
-Proof.
-  induction rest as [|[op r] l' IH]; intros Hop left v0 Hl H s v s' He.
-  - inversion H. cbn in He. inversion He. auto.
-  - cbn [fold_chain] in H.
-    destruct (as_const r) as [right|] eqn:Er; cbn [obind] in H; try discriminate.
-    destruct (eval_compare op left right) as [res|] eqn:Ec; cbn [obind] in H; try discriminate.
-    pose proof (fold_defined_proof r right Er) as Hr.
-    destruct (eval_compare_do_cmp m op left right res Hl Hr Ec) as [b [-> Hd]].
-    cbn [cmp_chain] in He.
-    destruct (eval c fuel esc s r) as [[y s2]| | |] eqn:Ey; try discriminate. cbn [bind] in He.
-    destruct (Hop (op, r) (or_introl eq_refl) right Er _ _ _ Ey) as [-> ->].
-    rewrite Hd in He. cbn [bind] in He. cbn [truthy] in H.
-    destruct l' as [|p2 l''].
-    + inversion He; subst. destruct b; cbn in H; inversion H; auto.
-    + destruct b.
-      * apply (IH (fun p Hp => Hop p (or_intror Hp)) right v0 Hr H _ _ _ He).
-      * inversion H; inversion He; subst; auto.
-Qed.
-
-Lemma fold_inv_all : forall fuel e, fold_inv fuel e.
-Proof.
-  induction fuel as [|fuel IH]; intros e v0 H s v s' He; [discriminate|].
-  destruct e; unfold as_const in H; cbn [as_const_gen] in H; fold as_const in H; try discriminate.
-  - (* EConst *) rewrite eval_const in He. inversion H; inversion He; subst; auto.
-  - (* EList *)
-    destruct (const_values items) as [vs|] eqn:E; cbn [omap] in H; try discriminate. inversion H; subst.
-    cbn [eval] in He.
-    destruct (map_eval (eval c fuel esc) s items) as [[ws s1]| | |] eqn:Em; try discriminate.
-    cbn [bind] in He. inversion He; subst.
-    destruct (const_values_inv fuel items vs E _ _ _ Em) as [-> ->]. auto.
-  - (* ENeg *)
-    destruct (as_const e) as [x|] eqn:E; cbn [obind] in H; try discriminate.
-    cbn [eval] in He. destruct (eval c fuel esc s e) as [[x' s1]| | |] eqn:Ee; try discriminate.
-    cbn [bind] in He. destruct (IH e x E _ _ _ Ee) as [-> ->].
-    destruct x; cbn in H; try discriminate. inversion H; inversion He; subst; auto.
-  - (* ENot *)
-    destruct (as_const e) as [x|] eqn:E; cbn [omap] in H; try discriminate. inversion H; subst.
-    cbn [eval] in He. destruct (eval c fuel esc s e) as [[x' s1]| | |] eqn:Ee; try discriminate.
-    cbn [bind] in He. destruct (IH e x E _ _ _ Ee) as [-> ->].
-    destruct (u_is_true (c_mode c) x) as [b| | |] eqn:Eb; try discriminate. cbn [bind] in He.
-    apply u_is_true_ok in Eb. subst. inversion He; auto.
-  - (* EBin *)
-    destruct (as_const e1) as [x|] eqn:E1; try discriminate.
-    destruct (as_const e2) as [y|] eqn:E2; try discriminate.
-    apply ok_of_some in H.
-    cbn [eval] in He. destruct (eval c fuel esc s e1) as [[x' s1]| | |] eqn:Ee1; try discriminate.
-    cbn [bind] in He. destruct (IH e1 x E1 _ _ _ Ee1) as [-> ->].
-    destruct (eval c fuel esc s e2) as [[y' s2]| | |] eqn:Ee2; try discriminate.
-    cbn [bind] in He. destruct (IH e2 y E2 _ _ _ Ee2) as [-> ->].
-    match type of He with bind ?g _ = _ => destruct g as [[]| | |]; try discriminate end.
-    cbn [bind] in He. rewrite H in He. cbn [bind] in He. inversion He; auto.
-  - (* ECmp *)
-    cbn [eval] in He. destruct (eval c fuel esc s e) as [[x' s1]| | |] eqn:Ee; try discriminate.
-    cbn [bind] in He.
-    destruct rest as [|[op b] rest'].
-    + destruct (as_const e) as [x|] eqn:E; cbn [obind fold_chain] in H; try discriminate.
-      destruct (IH e x E _ _ _ Ee) as [-> ->]. cbn in He. inversion H; inversion He; subst; auto.
-    + destruct rest' as [|p2 rest''].
-      * assert (Hshape : exists x y, as_const e = Some x /\ as_const b = Some y /\
-                  (match op with
-                   | CNotIn => omap (fun v => VBool (negb (truthy v))) (eval_compare CIn x y)
-                   | _ => eval_compare op x y end) = Some v0).
-        { destruct op; destruct (as_const e) as [x|]; try discriminate;
-            destruct (as_const b) as [y|]; try discriminate; exists x, y; repeat split; exact H. }
-        destruct Hshape as [x [y [E1 [E2 Hv]]]].
-        destruct (IH e x E1 _ _ _ Ee) as [-> ->].
-        cbn [cmp_chain] in He.
-        destruct (eval c fuel esc s b) as [[y' s2]| | |] eqn:Eb; try discriminate. cbn [bind] in He.
-        destruct (IH b y E2 _ _ _ Eb) as [-> ->].
-        pose proof (fold_defined_proof e x E1) as Hx. pose proof (fold_defined_proof b y E2) as Hy.
-        assert (Hr : exists r, v0 = VBool r /\ do_cmp m op x y = Ok r).
-        { destruct op; try solve [eapply eval_compare_do_cmp; eassumption].
-          destruct (eval_compare CIn x y) as [w|] eqn:Ew; cbn [omap] in Hv; try discriminate.
-          destruct (eval_compare_do_cmp m CIn x y w Hx Hy Ew) as [r [-> Hd']].
-          inversion Hv. exists (negb r). split; [reflexivity|].
-          unfold do_cmp in *. rewrite (u_not_undef_defined m y Hy), (u_not_undef_defined m x Hx) in *.
-          cbn [bind] in *. destruct (contains y x); cbn [bind] in *; try discriminate. inversion Hd'. reflexivity. }
-        destruct Hr as [r [-> Hd']]. fold m in He. rewrite Hd' in He. cbn [bind] in He. inversion He; auto.
-      * assert (Hshape : exists x, as_const e = Some x /\ fold_chain as_const x ((op, b) :: p2 :: rest'') = Some v0).
-        { destruct op; destruct (as_const e) as [x|]; try discriminate; exists x; (split; [reflexivity|exact H]). }
-        destruct Hshape as [x [E1 Hc]].
-        destruct (IH e x E1 _ _ _ Ee) as [-> ->].
-        pose proof (fold_defined_proof e x E1) as Hx.
-        eapply fold_chain_inv; [| exact Hx | exact Hc | exact He].
-        intros p _. apply IH.
-  - (* EAnd *)
-    destruct (as_const e1) as [x|] eqn:E1; try discriminate.
-    destruct (as_const e2) as [y|] eqn:E2; try discriminate. inversion H; subst.
-    cbn [eval] in He. destruct (eval c fuel esc s e1) as [[x' s1]| | |] eqn:Ee1; try discriminate.
-    cbn [bind] in He. destruct (IH e1 x E1 _ _ _ Ee1) as [-> ->].
-    destruct (u_is_true (c_mode c) x) as [t| | |] eqn:Et; try discriminate. cbn [bind] in He.
-    apply u_is_true_ok in Et. subst. unfold fold_and.
-    destruct (truthy x).
-    + apply (IH e2 y E2 _ _ _ He).
-    + inversion He; auto.
-  - (* EOr *)
-    destruct (as_const e1) as [x|] eqn:E1; try discriminate.
-    destruct (as_const e2) as [y|] eqn:E2; try discriminate. inversion H; subst.
-    cbn [eval] in He. destruct (eval c fuel esc s e1) as [[x' s1]| | |] eqn:Ee1; try discriminate.
-    cbn [bind] in He. destruct (IH e1 x E1 _ _ _ Ee1) as [-> ->].
-    destruct (u_is_true (c_mode c) x) as [t| | |] eqn:Et; try discriminate. cbn [bind] in He.
-    apply u_is_true_ok in Et. subst. unfold fold_or.
-    destruct (truthy x).
-    + inversion He; auto.
-    + apply (IH e2 y E2 _ _ _ He).
-Qed.
-End FoldEval.
-
-(* ------------------------------------------------------------------------------------------ *)
-(* Part 2 and 3: simulation                                                                     *)
-(* ------------------------------------------------------------------------------------------ *)
-(* ---- code placement ---- *)
-
-Lemma code_at_app_l C pc a b : code_at C pc (a ++ b) -> code_at C pc a.
-Proof. intros (pre & post & -> & <-). exists pre, (b ++ post). now rewrite <- app_assoc. Qed.
-Lemma code_at_app_r C pc a b : code_at C pc (a ++ b) -> code_at C (pc + length a) b.
-Proof. intros (pre & post & -> & <-). exists (pre ++ a), post. rewrite app_length. split; auto. now rewrite <- !app_assoc. Qed.
-Lemma code_at_head C pc i r : code_at C pc (i :: r) -> nth_error C pc = Some i.
-Proof. intros (pre & post & -> & <-). rewrite nth_error_app2 by lia. now rewrite Nat.sub_diag. Qed.
-Lemma code_at_tail C pc i r : code_at C pc (i :: r) -> code_at C (S pc) r.
-Proof. intros H. change (i :: r) with ([i] ++ r) in H. apply code_at_app_r in H. cbn in H. now rewrite Nat.add_1_r in H. Qed.
-Lemma code_at_pc C pc pc' code : code_at C pc code -> pc = pc' -> code_at C pc' code.
-Proof. intros H <-. exact H. Qed.
-
-Lemma pop_n_rev vs : forall stk acc, pop_n (length vs) (rev vs ++ stk) acc = Some (vs ++ acc, stk).
-Proof.
-  induction vs as [|v vs IH] using rev_ind; intros stk acc.
-  - reflexivity.
-  - rewrite rev_app_distr, app_length. cbn [rev length app]. rewrite Nat.add_1_r. cbn [pop_n].
-    rewrite IH. now rewrite <- app_assoc.
-Qed.
-
-Section Sim.
+Section Top.
 Variable c : cfg.
 Variable C : list instr.
+Hypothesis Hcfg : cfg_ok C c.
+Hypothesis Hwf : wf_code C.
 
-Notation star := (star c C).
-
-Lemma star_trans a b d : star a b -> star b d -> star a d.
-Proof. induction 1; auto. intros. econstructor; eauto. Qed.
-Lemma star_one a b : step c C a = Ok b -> star a b.
-Proof. intros; econstructor; eauto; constructor. Qed.
-Lemma star_eq a b b' : star a b -> b = b' -> star a b'.
-Proof. intros H <-. exact H. Qed.
-
-Lemma step_at pc stk s esc escs caps its calls i :
-  nth_error C pc = Some i ->
-  step c C (mkVm pc stk s esc escs caps its calls) = exec_instr c C i (mkVm pc stk s esc escs caps its calls).
-Proof. intros H. unfold step. cbn [v_pc]. now rewrite H. Qed.
-
-Definition sim_expr (fuel : nat) (esc : bool) (e : expr) : Prop :=
-  forall s v s', eval c fuel esc s e = Ok (v, s') ->
-  forall base stk escs caps its calls, code_at C base (compile_expr e base) ->
-  star (mkVm base stk s esc escs caps its calls)
-       (mkVm (base + length (compile_expr e base)) (v :: stk) s' esc escs caps its calls).
-
-Lemma compile_expr_const e base v : as_const e = Some v -> compile_expr e base = [ILoadConst v].
-Proof. intros H. destruct e; cbn [compile_expr]; rewrite H; reflexivity. Qed.
-
-Ltac one_step H :=
-  eapply star_step; [rewrite (step_at _ _ _ _ _ _ _ _ _ (code_at_head _ _ _ _ H)); cbn [exec_instr v_pc v_stk v_st v_esc v_escs v_caps v_iters v_calls next goto bind] | ].
-
-(* a list of expressions evaluated left to right ends up on the stack, last on top *)
-Lemma seq_sim fuel esc items :
-  (forall e, l2_expr e = true -> sim_expr fuel esc e) ->
-  forallb l2_expr items = true ->
-  forall s vs s', map_eval (eval c fuel esc) s items = Ok (vs, s') ->
-  forall base stk escs caps its calls, code_at C base (seq_code compile_expr items base) ->
-  star (mkVm base stk s esc escs caps its calls)
-       (mkVm (base + length (seq_code compile_expr items base)) (rev vs ++ stk) s' esc escs caps its calls).
+Lemma sim_levels : forall fuel,
+  (forall esc e, l2_expr e = true -> sim_expr c C fuel esc e) /\ sim_call c C fuel /\ sim_stmt c C fuel /\ sim_list c C fuel.
 Proof.
-  intros IH. induction items as [|x r IHr]; intros Hw s vs s' He base stk escs caps its calls Hc.
-  - cbn in He. inversion He; subst. cbn. rewrite Nat.add_0_r. constructor.
-  - cbn [forallb] in Hw. apply andb_prop in Hw as [Hx Hr].
-    cbn [map_eval] in He. fold (map_eval (eval c fuel esc)) in He.
-    destruct (eval c fuel esc s x) as [[v s1]| | |] eqn:Ex; try discriminate. cbn [bind] in He.
-    destruct (map_eval (eval c fuel esc) s1 r) as [[vr s2]| | |] eqn:Er; try discriminate. cbn [bind] in He.
-    inversion He; subst. cbn [seq_code] in Hc |- *. fold (@seq_code expr compile_expr) in Hc |- *.
-    eapply star_trans. { eapply (IH x Hx _ _ _ Ex). eapply code_at_app_l; eauto. }
-    apply code_at_app_r in Hc.
-    eapply star_eq. { eapply (IHr Hr _ _ _ Er). exact Hc. }
-    f_equal. { rewrite app_length. lia. } { cbn [rev]. now rewrite <- app_assoc. }
+  induction fuel as [|fuel (IHe & IHc & IHs & IHl)].
+  - split; [|split; [|split]].
+    + intros esc e _ s v s' He. discriminate.
+    + intros esc s mc cl args kw v s' He. discriminate.
+    + intros inl t _ esc s sg s' He. discriminate.
+    + intros inl l _ esc s sg s' He. discriminate.
+  - destruct (inv_all c C Hcfg Hwf fuel) as (EV & CV & SV & LV).
+    destruct (stmt_step c C Hcfg fuel EV CV SV LV IHe IHc IHs IHl) as [Ss Sl].
+    split; [|split; [|split]]; auto.
+    + exact (expr_step c C Hcfg fuel EV IHe IHc).
+    + exact (call_step c C Hwf fuel EV LV IHe IHl).
 Qed.
 
-
-Lemma u_is_true_bool md b : u_is_true md (VBool b) = Ok b.
-Proof. destruct md; reflexivity. Qed.
-
-Lemma do_cmp_notin md a b : do_cmp md CNotIn a b = bind (do_cmp md CIn a b) (fun r => Ok (negb r)).
-Proof.
-  unfold do_cmp. destruct (u_not_undef md b); cbn [bind]; try reflexivity.
-  destruct (u_not_undef md a); cbn [bind]; try reflexivity.
-  destruct (contains b a); reflexivity.
-Qed.
-
-Lemma emit_compare_sim op a b r pc stk s esc escs caps its calls :
-  do_cmp (c_mode c) op a b = Ok r -> code_at C pc (emit_compare op) ->
-  star (mkVm pc (b :: a :: stk) s esc escs caps its calls)
-       (mkVm (pc + length (emit_compare op)) (VBool r :: stk) s esc escs caps its calls).
-Proof.
-  intros Hd Hc.
-  destruct op; cbn [emit_compare length] in *;
-    try (rewrite Nat.add_1_r; apply star_one; rewrite (step_at _ _ _ _ _ _ _ _ _ (code_at_head _ _ _ _ Hc));
-         cbn [exec_instr v_stk]; rewrite Hd; reflexivity).
-  rewrite do_cmp_notin in Hd. destruct (do_cmp (c_mode c) CIn a b) as [r0| | |] eqn:E; try discriminate.
-  cbn [bind] in Hd. inversion Hd; subst.
-  eapply star_step. { rewrite (step_at _ _ _ _ _ _ _ _ _ (code_at_head _ _ _ _ Hc)). cbn [exec_instr v_stk]. rewrite E. reflexivity. }
-  apply code_at_tail in Hc. cbn [v_pc].
-  eapply star_step. { rewrite (step_at _ _ _ _ _ _ _ _ _ (code_at_head _ _ _ _ Hc)). cbn [exec_instr v_stk]. rewrite u_is_true_bool. reflexivity. }
-  cbn [bind next v_pc v_esc v_escs v_caps v_iters v_calls]. eapply star_eq; [constructor|]. f_equal. lia.
-Qed.
-
-Lemma chain_code_length ce rest : forall pc cl cl', length (chain_code ce rest pc cl) = length (chain_code ce rest pc cl').
-Proof.
-  induction rest as [|[op r] l' IH]; intros pc cl cl'; [reflexivity|].
-  cbn [chain_code]. destruct l' as [|p2 l'']; [reflexivity|].
-  fold (chain_code ce). rewrite !app_length. cbn [length]. rewrite (IH _ cl cl'). reflexivity.
-Qed.
-
-Lemma chain_sim fuel esc rest :
-  (forall e, l2_expr e = true -> sim_expr fuel esc e) ->
-  forallb (fun p => l2_expr (snd p)) rest = true -> rest <> [] ->
-  forall left s v s', cmp_chain (c_mode c) (eval c fuel esc) left s rest = Ok (v, s') ->
-  forall pc cleanup stk escs caps its calls,
-    code_at C pc (chain_code compile_expr rest pc cleanup ++ [IJump (cleanup + 2); ISwap; IDiscardTop]) ->
-    cleanup = pc + length (chain_code compile_expr rest pc cleanup) + 1 ->
-    star (mkVm pc (left :: stk) s esc escs caps its calls)
-         (mkVm (cleanup + 2) (v :: stk) s' esc escs caps its calls).
-Proof.
-  intros IH. induction rest as [|[op r] l' IHr]; intros Hw Hne left s v s' He pc cleanup stk escs caps its calls Hc Hcl; [congruence|].
-  cbn [forallb snd] in Hw. apply andb_prop in Hw as [Hr Hl'].
-  cbn [cmp_chain] in He. fold (cmp_chain (c_mode c) (eval c fuel esc)) in He.
-  destruct (eval c fuel esc s r) as [[y s2]| | |] eqn:Ey; try discriminate. cbn [bind] in He.
-  destruct (do_cmp (c_mode c) op left y) as [b| | |] eqn:Ed; try discriminate. cbn [bind] in He.
-  cbn [chain_code] in Hc, Hcl. fold (chain_code compile_expr) in Hc, Hcl.
-  destruct l' as [|p2 l''].
-  - inversion He; subst v s'. clear He.
-    rewrite <- app_assoc in Hc.
-    eapply star_trans. { eapply (IH r Hr _ _ _ Ey). eapply code_at_app_l; eauto. }
-    apply code_at_app_r in Hc.
-    eapply star_trans. { eapply emit_compare_sim; eauto. eapply code_at_app_l; eauto. }
-    apply code_at_app_r in Hc.
-    apply star_one. rewrite (step_at _ _ _ _ _ _ _ _ _ (code_at_head _ _ _ _ Hc)). reflexivity.
-  - rewrite <- !app_assoc in Hc.
-    eapply star_trans. { eapply (IH r Hr _ _ _ Ey). eapply code_at_app_l; eauto. }
-    pose proof (code_at_app_r _ _ _ _ Hc) as Hc2. cbn [app] in Hc2.
-    eapply star_step. { rewrite (step_at _ _ _ _ _ _ _ _ _ (code_at_head _ _ _ _ Hc2)). cbn [exec_instr v_stk]. rewrite Ed. reflexivity. }
-    cbn [bind next v_pc v_stk v_st v_esc v_escs v_caps v_iters v_calls].
-    apply code_at_tail in Hc2.
-    pose proof (code_at_head _ _ _ _ Hc2) as Hj. apply code_at_tail in Hc2.
-    rewrite !app_length in Hcl. cbn [length] in Hcl.
-    destruct b.
-    + eapply star_step. { rewrite (step_at _ _ _ _ _ _ _ _ _ Hj). cbn [exec_instr v_stk]. rewrite u_is_true_bool. reflexivity. }
-      cbn [bind next v_pc v_stk v_st v_esc v_escs v_caps v_iters v_calls].
-      replace (S (S (pc + length (compile_expr r pc)))) with (pc + length (compile_expr r pc) + 2) in * by lia.
-      eapply (IHr Hl' ltac:(discriminate) _ _ _ _ He).
-      * exact Hc2.
-      * lia.
-    + inversion He; subst v s'.
-      eapply star_step. { rewrite (step_at _ _ _ _ _ _ _ _ _ Hj). cbn [exec_instr v_stk]. rewrite u_is_true_bool. reflexivity. }
-      cbn [bind goto v_pc v_stk v_st v_esc v_escs v_caps v_iters v_calls].
-      (* the cleanup block *)
-      assert (Hk : code_at C cleanup [ISwap; IDiscardTop]).
-      { pose proof (code_at_app_r _ _ _ _ Hc2) as H3. apply code_at_tail in H3. eapply code_at_pc; [exact H3|]. lia. }
-      eapply star_step. { rewrite (step_at _ _ _ _ _ _ _ _ _ (code_at_head _ _ _ _ Hk)). reflexivity. }
-      cbn [next v_pc v_stk v_esc v_escs v_caps v_iters v_calls v_st]. apply code_at_tail in Hk.
-      eapply star_step. { rewrite (step_at _ _ _ _ _ _ _ _ _ (code_at_head _ _ _ _ Hk)). reflexivity. }
-      cbn [next v_pc v_stk v_esc v_escs v_caps v_iters v_calls v_st].
-      eapply star_eq; [constructor|]. f_equal. lia.
-Qed.
-
-
-Lemma map_eval_length {X} (ev : st -> X -> outcome (value * st)) items : forall s vs s',
-  map_eval ev s items = Ok (vs, s') -> length vs = length items.
-Proof.
-  induction items as [|x r IH]; intros s vs s' H; cbn [map_eval] in H.
-  - inversion H. reflexivity.
-  - fold (map_eval ev) in H. destruct (ev s x) as [[v s1]| | |]; try discriminate. cbn [bind] in H.
-    destruct (map_eval ev s1 r) as [[vr s2]| | |] eqn:E; try discriminate. cbn [bind] in H.
-    inversion H; subst. cbn [length]. f_equal. eapply IH; eauto.
-Qed.
-
-Lemma pop_args x vs stk : pop_n (1 + length vs) (rev vs ++ x :: stk) [] = Some (x :: vs, stk).
-Proof.
-  pose proof (pop_n_rev (x :: vs) stk []) as H. cbn [length rev] in H. rewrite <- app_assoc in H. cbn [app] in H.
-  rewrite app_nil_r in H. exact H.
-Qed.
-
-Ltac vmsimp := cbn [bind next goto v_pc v_stk v_st v_esc v_escs v_caps v_iters v_calls].
-Ltac step_by H tac :=
-  eapply star_step;
-  [ rewrite (step_at _ _ _ _ _ _ _ _ _ (code_at_head _ _ _ _ H)); cbn [exec_instr v_stk v_st v_esc]; tac; reflexivity
-  | vmsimp ].
-Ltac finish := eapply star_eq; [constructor|]; f_equal; rewrite ?app_length; cbn [length]; lia.
-
-Lemma sim_all : forall fuel esc e, l2_expr e = true -> sim_expr fuel esc e.
-Proof.
-  induction fuel as [|fuel IH]; intros esc e Hw s v s' He; [discriminate|].
-  intros base stk escs caps its calls Hc.
-  destruct (as_const e) as [v0|] eqn:Hf.
-  { rewrite (compile_expr_const e base v0 Hf) in *.
-    destruct (fold_inv_all c esc (S fuel) e v0 Hf _ _ _ He) as [-> ->].
-    step_by Hc idtac. finish. }
-  destruct e; cbn [compile_expr] in Hc |- *; rewrite Hf in Hc |- *; cbn [eval] in He; cbn [l2_expr] in Hw.
-  - (* EConst *) unfold as_const in Hf. cbn in Hf. discriminate.
-  - (* EVar *)
-    destruct (lookup c s x) as [ov s1] eqn:El. inversion He; subst.
-    step_by Hc ltac:(rewrite El). finish.
-  - (* EList *)
-    destruct (map_eval (eval c fuel esc) s items) as [[vs s1]| | |] eqn:Em; try discriminate.
-    cbn [bind] in He. inversion He; subst.
-    eapply star_trans. { eapply (seq_sim fuel esc items (IH esc) Hw _ _ _ Em). eapply code_at_app_l; eauto. }
-    apply code_at_app_r in Hc.
-    step_by Hc ltac:(rewrite <- (map_eval_length _ _ _ _ _ Em), (pop_n_rev vs stk []), app_nil_r). finish.
-  - (* ENeg *)
-    destruct (eval c fuel esc s e) as [[x s1]| | |] eqn:Ea; try discriminate. cbn [bind] in He.
-    eapply star_trans. { eapply (IH esc e Hw _ _ _ Ea). eapply code_at_app_l; eauto. }
-    apply code_at_app_r in Hc.
-    destruct x; try discriminate. inversion He; subst.
-    step_by Hc idtac. finish.
-  - (* ENot *)
-    destruct (eval c fuel esc s e) as [[x s1]| | |] eqn:Ea; try discriminate. cbn [bind] in He.
-    eapply star_trans. { eapply (IH esc e Hw _ _ _ Ea). eapply code_at_app_l; eauto. }
-    apply code_at_app_r in Hc.
-    destruct (u_is_true (c_mode c) x) as [b| | |] eqn:Eb; try discriminate. cbn [bind] in He. inversion He; subst.
-    step_by Hc ltac:(rewrite Eb). finish.
-  - (* EBin *)
-    apply andb_prop in Hw as [Hw1 Hw2].
-    destruct (eval c fuel esc s e1) as [[x s1]| | |] eqn:Ea; try discriminate. cbn [bind] in He.
-    destruct (eval c fuel esc s1 e2) as [[y s2]| | |] eqn:Eb; try discriminate. cbn [bind] in He.
-    eapply star_trans. { eapply (IH esc e1 Hw1 _ _ _ Ea). eapply code_at_app_l; eauto. }
-    apply code_at_app_r in Hc.
-    eapply star_trans. { eapply (IH esc e2 Hw2 _ _ _ Eb). eapply code_at_app_l; eauto. }
-    apply code_at_app_r in Hc.
-    match type of He with bind ?g _ = _ => destruct g as [[]| | |] eqn:G; try discriminate end. cbn [bind] in He.
-    destruct (do_bin op x y) as [r| | |] eqn:Ed; try discriminate. cbn [bind] in He. inversion He; subst.
-    step_by Hc ltac:(rewrite G; cbn [bind]; rewrite Ed). finish.
-  - (* ECmp *)
-    apply andb_prop in Hw as [Hw Hw3]. apply andb_prop in Hw as [Hw1 Hw2].
-    destruct (eval c fuel esc s e) as [[x s1]| | |] eqn:Ea; try discriminate. cbn [bind] in He.
-    destruct rest as [|[op b] rest']; [discriminate|].
-    destruct rest' as [|p2 rest''].
-    + cbn [forallb snd] in Hw3. apply andb_prop in Hw3 as [Hb _].
-      cbn [cmp_chain] in He.
-      destruct (eval c fuel esc s1 b) as [[y s2]| | |] eqn:Eb; try discriminate. cbn [bind] in He.
-      destruct (do_cmp (c_mode c) op x y) as [r| | |] eqn:Ed; try discriminate. cbn [bind] in He. inversion He; subst.
-      eapply star_trans. { eapply (IH esc e Hw1 _ _ _ Ea). eapply code_at_app_l; eauto. }
-      apply code_at_app_r in Hc.
-      eapply star_trans. { eapply (IH esc b Hb _ _ _ Eb). eapply code_at_app_l; eauto. }
-      apply code_at_app_r in Hc.
-      eapply star_eq. { eapply emit_compare_sim; eauto. }
-      f_equal. rewrite !app_length. lia.
-    + eapply star_trans. { eapply (IH esc e Hw1 _ _ _ Ea). eapply code_at_app_l; eauto. }
-      apply code_at_app_r in Hc.
-      set (start := base + length (compile_expr e base)) in *.
-      set (rest := (op, b) :: p2 :: rest'') in *.
-      set (cleanup := start + length (chain_code compile_expr rest start 0) + 1) in *.
-      eapply star_eq.
-      { eapply (chain_sim fuel esc rest (IH esc) Hw3 ltac:(discriminate) _ _ _ _ He start cleanup).
-        - exact Hc.
-        - rewrite (chain_code_length compile_expr rest start cleanup 0). reflexivity. }
-      f_equal. rewrite !app_length. cbn [length].
-      rewrite (chain_code_length compile_expr rest start cleanup 0). unfold cleanup. lia.
-  - (* EAnd *)
-    apply andb_prop in Hw as [Hw1 Hw2].
-    destruct (eval c fuel esc s e1) as [[x s1]| | |] eqn:Ea; try discriminate. cbn [bind] in He.
-    destruct (u_is_true (c_mode c) x) as [t| | |] eqn:Et; try discriminate. cbn [bind] in He.
-    eapply star_trans. { eapply (IH esc e1 Hw1 _ _ _ Ea). eapply code_at_app_l; eauto. }
-    apply code_at_app_r in Hc. pose proof (code_at_head _ _ _ _ Hc) as Hj. apply code_at_tail in Hc.
-    destruct t.
-    + eapply star_step. { rewrite (step_at _ _ _ _ _ _ _ _ _ Hj). cbn [exec_instr v_stk v_st]. rewrite Et. reflexivity. }
-      vmsimp.
-      replace (S (base + length (compile_expr e1 base))) with (base + length (compile_expr e1 base) + 1) in * by lia.
-      eapply star_eq. { eapply (IH esc e2 Hw2 _ _ _ He). exact Hc. }
-      f_equal. rewrite !app_length. cbn [length]. lia.
-    + inversion He; subst.
-      eapply star_step. { rewrite (step_at _ _ _ _ _ _ _ _ _ Hj). cbn [exec_instr v_stk v_st]. rewrite Et. reflexivity. }
-      vmsimp. finish.
-  - (* EOr *)
-    apply andb_prop in Hw as [Hw1 Hw2].
-    destruct (eval c fuel esc s e1) as [[x s1]| | |] eqn:Ea; try discriminate. cbn [bind] in He.
-    destruct (u_is_true (c_mode c) x) as [t| | |] eqn:Et; try discriminate. cbn [bind] in He.
-    eapply star_trans. { eapply (IH esc e1 Hw1 _ _ _ Ea). eapply code_at_app_l; eauto. }
-    apply code_at_app_r in Hc. pose proof (code_at_head _ _ _ _ Hc) as Hj. apply code_at_tail in Hc.
-    destruct t.
-    + inversion He; subst.
-      eapply star_step. { rewrite (step_at _ _ _ _ _ _ _ _ _ Hj). cbn [exec_instr v_stk v_st]. rewrite Et. reflexivity. }
-      vmsimp. finish.
-    + eapply star_step. { rewrite (step_at _ _ _ _ _ _ _ _ _ Hj). cbn [exec_instr v_stk v_st]. rewrite Et. reflexivity. }
-      vmsimp.
-      replace (S (base + length (compile_expr e1 base))) with (base + length (compile_expr e1 base) + 1) in * by lia.
-      eapply star_eq. { eapply (IH esc e2 Hw2 _ _ _ He). exact Hc. }
-      f_equal. rewrite !app_length. cbn [length]. lia.
-  - (* EIf *)
-    apply andb_prop in Hw as [Hw Hw3]. apply andb_prop in Hw as [Hw1 Hw2].
-    destruct (eval c fuel esc s e1) as [[x s1]| | |] eqn:Ea; try discriminate. cbn [bind] in He.
-    destruct (u_is_true (c_mode c) x) as [t| | |] eqn:Et; try discriminate. cbn [bind] in He.
-    eapply star_trans. { eapply (IH esc e1 Hw1 _ _ _ Ea). eapply code_at_app_l; eauto. }
-    apply code_at_app_r in Hc. pose proof (code_at_head _ _ _ _ Hc) as Hj. apply code_at_tail in Hc.
-    replace (S (base + length (compile_expr e1 base))) with (base + length (compile_expr e1 base) + 1) in * by lia.
-    destruct t.
-    + eapply star_step. { rewrite (step_at _ _ _ _ _ _ _ _ _ Hj). cbn [exec_instr v_stk v_st]. rewrite Et. reflexivity. }
-      vmsimp.
-      replace (S (base + length (compile_expr e1 base))) with (base + length (compile_expr e1 base) + 1) in * by lia.
-      eapply star_trans. { eapply (IH esc e2 Hw2 _ _ _ He). eapply code_at_app_l; eauto. }
-      apply code_at_app_r in Hc.
-      step_by Hc idtac. finish.
-    + eapply star_step. { rewrite (step_at _ _ _ _ _ _ _ _ _ Hj). cbn [exec_instr v_stk v_st]. rewrite Et. reflexivity. }
-      vmsimp.
-      apply code_at_app_r in Hc. apply code_at_tail in Hc.
-      eapply code_at_pc in Hc; [|instantiate (1 := base + length (compile_expr e1 base) + 1 + length (compile_expr e2 (base + length (compile_expr e1 base) + 1)) + 1); lia].
-      destruct f as [f|].
-      * eapply star_eq. { eapply (IH esc f Hw3 _ _ _ He). exact Hc. }
-        f_equal. rewrite !app_length. cbn [length]. lia.
-      * inversion He; subst. step_by Hc idtac. finish.
-  - (* EItem *)
-    apply andb_prop in Hw as [Hw1 Hw2].
-    destruct (eval c fuel esc s e1) as [[x s1]| | |] eqn:Ea; try discriminate. cbn [bind] in He.
-    destruct (eval c fuel esc s1 e2) as [[k s2]| | |] eqn:Eb; try discriminate. cbn [bind] in He.
-    eapply star_trans. { eapply (IH esc e1 Hw1 _ _ _ Ea). eapply code_at_app_l; eauto. }
-    apply code_at_app_r in Hc.
-    eapply star_trans. { eapply (IH esc e2 Hw2 _ _ _ Eb). eapply code_at_app_l; eauto. }
-    apply code_at_app_r in Hc.
-    assert (Hg : get_item (c_mode c) x k = Ok v /\ s' = s2).
-    { unfold get_item. destruct (match x, k with VList l, VInt z => idx_list l z | _, _ => None end) as [w|].
-      - inversion He; auto.
-      - destruct (u_handle_undefined (c_mode c) (is_undef x)) as [w| | |]; try discriminate. inversion He; auto. }
-    destruct Hg as [Hg ->].
-    step_by Hc ltac:(rewrite Hg). finish.
-  - (* EAttr *)
-    destruct (eval c fuel esc s e) as [[x s1]| | |] eqn:Ea; try discriminate. cbn [bind] in He.
-    eapply star_trans. { eapply (IH esc e Hw _ _ _ Ea). eapply code_at_app_l; eauto. }
-    apply code_at_app_r in Hc.
-    assert (Hg : get_attr (c_mode c) x a = Ok v /\ s' = s1).
-    { unfold get_attr. destruct (match x with VLoop i n => loop_attr i n a | _ => None end) as [w|].
-      - inversion He; auto.
-      - destruct (u_handle_undefined (c_mode c) (is_undef x)) as [w| | |]; try discriminate. inversion He; auto. }
-    destruct Hg as [Hg ->].
-    step_by Hc ltac:(rewrite Hg). finish.
-  - (* EFilter *)
-    apply andb_prop in Hw as [Hw1 Hw2].
-    destruct (eval c fuel esc s e) as [[x s1]| | |] eqn:Ea; try discriminate. cbn [bind] in He.
-    destruct (map_eval (eval c fuel esc) s1 args) as [[vs s2]| | |] eqn:Em; try discriminate. cbn [bind] in He.
-    destruct (do_filter (c_mode c) esc f x vs) as [r| | |] eqn:Ed; try discriminate. cbn [bind] in He. inversion He; subst.
-    eapply star_trans. { eapply (IH esc e Hw1 _ _ _ Ea). eapply code_at_app_l; eauto. }
-    apply code_at_app_r in Hc.
-    eapply star_trans. { eapply (seq_sim fuel esc args (IH esc) Hw2 _ _ _ Em). eapply code_at_app_l; eauto. }
-    apply code_at_app_r in Hc.
-    step_by Hc ltac:(rewrite <- (map_eval_length _ _ _ _ _ Em), pop_args, Ed). finish.
-  - (* ETest *)
-    apply andb_prop in Hw as [Hw1 Hw2].
-    destruct (eval c fuel esc s e) as [[x s1]| | |] eqn:Ea; try discriminate. cbn [bind] in He.
-    destruct (map_eval (eval c fuel esc) s1 args) as [[vs s2]| | |] eqn:Em; try discriminate. cbn [bind] in He.
-    destruct (do_test t x) as [r| | |] eqn:Ed; try discriminate. cbn [bind] in He. inversion He; subst.
-    eapply star_trans. { eapply (IH esc e Hw1 _ _ _ Ea). eapply code_at_app_l; eauto. }
-    apply code_at_app_r in Hc.
-    eapply star_trans. { eapply (seq_sim fuel esc args (IH esc) Hw2 _ _ _ Em). eapply code_at_app_l; eauto. }
-    apply code_at_app_r in Hc.
-    step_by Hc ltac:(rewrite <- (map_eval_length _ _ _ _ _ Em), pop_args, Ed).
-    apply code_at_tail in Hc.
-    destruct negated.
-    + step_by Hc ltac:(rewrite u_is_true_bool). finish.
-    + finish.
-  - discriminate.
-Qed.
-
-
-(* ---- Part 3: statements ---- *)
-End Sim.
-
-(* induction principle for statements with their nested bodies *)
-Section StmtInd.
-Variable P : stmt -> Prop.
-Hypothesis Hraw : forall t, P (SRaw t).
-Hypothesis Hemit : forall e, P (SEmit e).
-Hypothesis Hif : forall arms els, Forall (fun p => Forall P (snd p)) arms ->
-  match els with Some b => Forall P b | None => True end -> P (SIf arms els).
-Hypothesis Hfor : forall t i f body els r, Forall P body ->
-  match els with Some b => Forall P b | None => True end -> P (SFor t i f body els r).
-Hypothesis Hset : forall x e, P (SSet x e).
-Hypothesis Hsetblock : forall x body f, Forall P body -> P (SSetBlock x body f).
-Hypothesis Hwith : forall binds body, Forall P body -> P (SWith binds body).
-Hypothesis Hmacro : forall m ps ds body, Forall P body -> P (SMacro m ps ds body).
-Hypothesis Hcall : forall m args body, Forall P body -> P (SCallBlock m args body).
-Hypothesis Hfb : forall f body, Forall P body -> P (SFilterBlock f body).
-Hypothesis Hae : forall v body, Forall P body -> P (SAutoEscape v body).
-Hypothesis Hbreak : P SBreak.
-Hypothesis Hcont : P SContinue.
-
-Fixpoint stmt_ind' (t : stmt) : P t :=
-  let go := fix go (l : list stmt) : Forall P l :=
-    match l with [] => Forall_nil P | x :: r => Forall_cons x (stmt_ind' x) (go r) end in
-  let goo (o : option (list stmt)) : match o with Some b => Forall P b | None => True end :=
-    match o with Some b => go b | None => I end in
-  match t with
-  | SRaw x => Hraw x
-  | SEmit e => Hemit e
-  | SIf arms els =>
-      Hif arms els
-        ((fix ga (a : list (expr * list stmt)) : Forall (fun p => Forall P (snd p)) a :=
-            match a with
-            | [] => Forall_nil _
-            | p :: r => Forall_cons p (match p as p0 return Forall P (snd p0) with (_, b) => go b end) (ga r)
-            end) arms)
-        (goo els)
-  | SFor tg i f body els r => Hfor tg i f body els r (go body) (goo els)
-  | SSet x e => Hset x e
-  | SSetBlock x body f => Hsetblock x body f (go body)
-  | SWith binds body => Hwith binds body (go body)
-  | SMacro m ps ds body => Hmacro m ps ds body (go body)
-  | SCallBlock m args body => Hcall m args body (go body)
-  | SFilterBlock f body => Hfb f body (go body)
-  | SAutoEscape v body => Hae v body (go body)
-  | SBreak => Hbreak
-  | SContinue => Hcont
-  end.
-End StmtInd.
-
-(* the length of a statement's code does not depend on where `break` jumps to *)
-Definition len_indep (t : stmt) : Prop :=
-  forall base i e e' p, length (compile_stmt t base (Some (mkL i e p))) = length (compile_stmt t base (Some (mkL i e' p))).
-
-Lemma seq_len_indep l : Forall len_indep l ->
-  forall base i e e' p, length (compile_stmts l base (Some (mkL i e p))) = length (compile_stmts l base (Some (mkL i e' p))).
-Proof.
-  induction 1 as [|x r Hx Hr IH]; intros base i e e' p; [reflexivity|].
-  unfold compile_stmts. cbn [seq_code].
-  fold (compile_stmts r (base + length (compile_stmt x base (Some (mkL i e p)))) (Some (mkL i e p))).
-  fold (compile_stmts r (base + length (compile_stmt x base (Some (mkL i e' p)))) (Some (mkL i e' p))).
-  rewrite !app_length. rewrite (Hx base i e e' p). f_equal. apply IH.
-Qed.
-
-Lemma if_len_indep els arms : Forall (fun p => Forall len_indep (snd p)) arms ->
-  match els with Some b => Forall len_indep b | None => True end ->
-  forall base i e e' p,
-    length (if_code (fun b pc => compile_stmts b pc (Some (mkL i e p))) els arms base) =
-    length (if_code (fun b pc => compile_stmts b pc (Some (mkL i e' p))) els arms base).
-Proof.
-  intros Ha Hels. induction Ha as [|[cnd body] r Hb Hr IH]; intros base i e e' p.
-  - cbn [if_code]. destruct els as [b|]; [apply seq_len_indep; exact Hels|reflexivity].
-  - cbn [if_code snd] in *.
-    fold (if_code (fun b pc => compile_stmts b pc (Some (mkL i e p))) els).
-    fold (if_code (fun b pc => compile_stmts b pc (Some (mkL i e' p))) els).
-    pose proof (seq_len_indep body Hb (base + length (compile_expr cnd base) + 1) i e e' p) as Hct.
-    destruct r as [|a2 r']; [destruct (nonempty_body els)|]; rewrite ?app_length; cbn [length]; rewrite ?app_length; cbn [length];
-      rewrite Hct; try reflexivity; rewrite (IH _ i e e' p); reflexivity.
-Qed.
-
-Lemma compile_len_indep : forall t, len_indep t.
-Proof.
-  apply stmt_ind'; unfold len_indep; intros; cbn [compile_stmt]; try reflexivity.
-  - (* SIf *) apply if_len_indep; assumption.
-  - (* SFor *)
-    destruct els as [[|x b]|]; try reflexivity.
-    rewrite ?app_length. cbn [length]. rewrite ?app_length. cbn [length].
-    match goal with |- context [seq_code _ (x :: b) ?pos] => pose proof (seq_len_indep (x :: b) H0 pos i0 e e' p) as HL end.
-    unfold compile_stmts in HL. lia.
-  - (* SSetBlock *) cbn [enter_scope lc_iter lc_end lc_pending]. rewrite ?app_length. cbn [length]. rewrite ?app_length.
-    pose proof (seq_len_indep body H (base + 1) i e e' (ClCapture :: p)) as HL. unfold compile_stmts in HL. lia.
-  - (* SWith *) cbn [enter_scope lc_iter lc_end lc_pending]. rewrite ?app_length. cbn [length]. rewrite ?app_length.
-    match goal with |- context [seq_code _ body ?pos] => pose proof (seq_len_indep body H pos i e e' (ClFrame :: p)) as HL end.
-    unfold compile_stmts in HL. lia.
-  - (* SFilterBlock *) cbn [enter_scope lc_iter lc_end lc_pending]. rewrite ?app_length. cbn [length]. rewrite ?app_length.
-    pose proof (seq_len_indep body H (base + 1) i e e' (ClCapture :: p)) as HL. unfold compile_stmts in HL. lia.
-  - (* SAutoEscape *) cbn [enter_scope lc_iter lc_end lc_pending]. rewrite ?app_length. cbn [length]. rewrite ?app_length.
-    match goal with |- context [seq_code _ body ?pos] => pose proof (seq_len_indep body H pos i e e' (ClAutoEscape :: p)) as HL end.
-    unfold compile_stmts in HL. lia.
-  - (* SBreak *) cbn [lc_pending lc_end]. rewrite !app_length. reflexivity.
-Qed.
-
-(* the loop bookkeeping of the innermost frame *)
-Definition hdl (s : st) : option (option (Z * Z * bool)) :=
-  match s_env s with f :: _ => Some (f_loop f) | [] => None end.
-
-Lemma hdl_env a b : s_env a = s_env b -> hdl a = hdl b.
-Proof. unfold hdl. intros ->. reflexivity. Qed.
-
-Lemma store_hdl s x v : hdl (store s x v) = hdl s.
-Proof. unfold hdl, store. destruct (s_env s) as [|f r] eqn:E; cbn [s_env f_loop]; rewrite ?E; reflexivity. Qed.
-
-Section Hdl.
-Variable c : cfg.
-
-Lemma if_arms_hdl fuel esc els inl :
-  (forall l, forallb (l2_stmt inl) l = true -> forall s sg s', exec_list c fuel esc s l = Ok (sg, s') -> hdl s' = hdl s) ->
-  match els with Some b => forallb (l2_stmt inl) b | None => true end = true ->
-  forall arms, forallb (fun p => l2_expr (fst p) && forallb (l2_stmt inl) (snd p)) arms = true ->
-  forall s sg s', if_arms (c_mode c) (eval c fuel esc) (exec_list c fuel esc) els s arms = Ok (sg, s') -> hdl s' = hdl s.
-Proof.
-  intros IHl Hels. induction arms as [|[cnd body] r IH]; intros Hw s sg s' He; cbn [if_arms] in He.
-  - destruct els as [b|]; [eapply IHl; eauto|inversion He; reflexivity].
-  - cbn [forallb fst snd] in Hw. apply andb_prop in Hw as [Hw Hr]. apply andb_prop in Hw as [_ Hb].
-    bstep He p1 E1. destruct p1 as [v s1]. bstep He t Et.
-    rewrite <- (hdl_env s1 s (eval_env_proof _ _ _ _ _ _ _ E1)).
-    destruct t; [eapply IHl; eauto|eapply IH; eauto].
-Qed.
-
-Lemma frag_hdl : forall fuel,
-  (forall inl t, l2_stmt inl t = true -> forall esc s sg s', exec c fuel esc s t = Ok (sg, s') -> hdl s' = hdl s) /\
-  (forall inl l, forallb (l2_stmt inl) l = true -> forall esc s sg s', exec_list c fuel esc s l = Ok (sg, s') -> hdl s' = hdl s).
-Proof.
-  induction fuel as [|fuel [IHs IHl]].
-  { split; intros; discriminate. }
-  split.
-  - intros inl t Hw esc s sg s' He.
-    destruct t; cbn [l2_stmt] in Hw; try discriminate.
-    + cbn [exec] in He. inversion He; reflexivity.
-    + cbn [exec] in He. bstep He p1 E1. destruct p1 as [v s1].
-      destruct (u_strictish (c_mode c) && is_strict_undef v); try discriminate. inversion He; subst.
-      apply hdl_env. cbn [emit s_env]. eapply eval_env_proof; eauto.
-    + cbn [exec] in He. apply andb_prop in Hw as [Ha Hels].
-      eapply (if_arms_hdl fuel esc els inl); eauto.
-    + apply andb_prop in Hw as [Hw Hels]. apply andb_prop in Hw as [Hw Hbody]. apply andb_prop in Hw as [Hi Hflt].
-      cbn [exec] in He.
-      bstep He p1 E1. destruct p1 as [iv s1]. bstep He items0 E2. bstep He p3 E3. destruct p3 as [items s2].
-      bstep He s5 E4.
-      assert (H6 : s_env (pop_frame s5) = s_env s).
-      { apply (for_scoped_proof c (S fuel) esc s t iter filter body recursive SigNormal).
-        cbn [exec]. rewrite E1. cbn [bind]. rewrite E2. cbn [bind]. rewrite E3. cbn [bind]. rewrite E4. cbn [bind]. destruct items; reflexivity. }
-      destruct items as [|it0 items]; [destruct els as [eb|]|].
-      * rewrite <- (hdl_env _ _ H6). eapply IHl; eauto.
-      * inversion He; subst. apply hdl_env, H6.
-      * inversion He; subst. apply hdl_env, H6.
-    + cbn [exec] in He. bstep He p1 E1. destruct p1 as [v s1]. inversion He; subst.
-      rewrite store_hdl. apply hdl_env. eapply eval_env_proof; eauto.
-    + cbn [exec] in He.
-      bstep He p1 E1. destruct p1 as [[sg1 txt] s1]. bstep E1 p2 E2. destruct p2 as [sg2 s2]. inversion E1; subst. clear E1.
-      assert (H2 : hdl (with_out s2 (s_out s)) = hdl s).
-      { transitivity (hdl s2); [apply hdl_env; reflexivity|].
-        transitivity (hdl (with_out s [])); [eapply IHl; eauto|apply hdl_env; reflexivity]. }
-      destruct sg1.
-      * bstep He fv Ef. inversion He; subst. rewrite store_hdl. exact H2.
-      * inversion He; subst. exact H2.
-      * inversion He; subst. exact H2.
-    + apply hdl_env. eapply with_scoped_proof; eauto.
-    + cbn [exec] in He.
-      bstep He p1 E1. destruct p1 as [[sg1 txt] s1]. bstep E1 p2 E2. destruct p2 as [sg2 s2]. inversion E1; subst. clear E1.
-      assert (H2 : hdl (with_out s2 (s_out s)) = hdl s).
-      { transitivity (hdl s2); [apply hdl_env; reflexivity|].
-        transitivity (hdl (with_out s [])); [eapply IHl; eauto|apply hdl_env; reflexivity]. }
-      destruct sg1.
-      * bstep He fv Ef. inversion He; subst. exact H2.
-      * inversion He; subst. exact H2.
-      * inversion He; subst. exact H2.
-    + cbn [exec] in He. apply andb_prop in Hw as [_ Hb].
-      bstep He p1 E1. destruct p1 as [x s1]. bstep He esc' Ee.
-      rewrite <- (hdl_env s1 s (eval_env_proof _ _ _ _ _ _ _ E1)). eapply IHl; eauto.
-    + cbn [exec] in He. inversion He; reflexivity.
-    + cbn [exec] in He. inversion He; reflexivity.
-  - intros inl l Hw esc s sg s' He.
-    destruct l as [|t r]; cbn [exec_list] in He.
-    + inversion He; reflexivity.
-    + cbn [forallb] in Hw. apply andb_prop in Hw as [Ht Hr].
-      bstep He p1 E1. destruct p1 as [sg1 s1].
-      transitivity (hdl s1); [|eapply IHs; eauto].
-      destruct sg1; [eapply IHl; eauto|inversion He; reflexivity|inversion He; reflexivity].
-Qed.
-
-End Hdl.
-
-Section SimStmtBase.
-Variable c : cfg.
-Variable C : list instr.
-Notation star := (L2.Simulation.star c C).
-
-Ltac vmsimp := cbn [bind next goto v_pc v_stk v_st v_esc v_escs v_caps v_iters v_calls].
-Ltac step_by H tac :=
-  eapply star_step;
-  [ rewrite (step_at c C _ _ _ _ _ _ _ _ _ (code_at_head _ _ _ _ H)); cbn [exec_instr v_stk v_st v_esc v_escs v_caps]; tac; reflexivity
-  | vmsimp ].
-
-Lemma exec_list_nil fuel esc s r : exec_list c fuel esc s [] = Ok r -> r = (SigNormal, s).
-Proof. destruct fuel; cbn; intros H; inversion H; reflexivity. Qed.
-
-Lemma binds_sim fuel esc binds :
-  forallb (fun p => l2_expr (snd p)) binds = true ->
-  forall s s', with_binds (eval c fuel esc) s binds = Ok s' ->
-  forall base stk escs caps its calls, code_at C base (binds_code binds base) ->
-  star (mkVm base stk s esc escs caps its calls)
-       (mkVm (base + length (binds_code binds base)) stk s' esc escs caps its calls).
-Proof.
-  induction binds as [|[x e] r IH]; intros Hw s s' He base stk escs caps its calls Hc.
-  - cbn in He. inversion He; subst. cbn. rewrite Nat.add_0_r. constructor.
-  - cbn [forallb snd] in Hw. apply andb_prop in Hw as [Hx Hr].
-    cbn [with_binds] in He. fold (with_binds (eval c fuel esc)) in He.
-    bstep He p1 E1. destruct p1 as [v s1].
-    cbn [binds_code] in Hc |- *. fold binds_code in Hc |- *.
-    eapply star_trans. { eapply (sim_all c C fuel esc e Hx _ _ _ E1). eapply code_at_app_l; eauto. }
-    apply code_at_app_r in Hc.
-    step_by Hc idtac. apply code_at_tail in Hc.
-    replace (S (base + length (compile_expr e base))) with (base + length (compile_expr e base) + 1) in * by lia.
-    eapply star_eq. { eapply (IH Hr _ _ He). exact Hc. }
-    f_equal. rewrite app_length. cbn [length]. lia.
-Qed.
-
-Lemma do_filter_str_defined md esc f b t v : do_filter md esc f (VStr b t) [] = Ok v -> is_strict_undef v = false.
-Proof.
-  unfold do_filter, str_input.
-  repeat match goal with |- context [if ?x then _ else _] => destruct x end; destruct md; cbn;
-    repeat match goal with |- context [match ?x with _ => _ end] => destruct x end;
-    intros H; inversion H; try reflexivity.
-Qed.
-
-End SimStmtBase.
-
-Section SimStmt.
-Variable c : cfg.
-Variable C : list instr.
-Notation star := (L2.Simulation.star c C).
-
-Ltac vmsimp := cbn [bind next goto v_pc v_stk v_st v_esc v_escs v_caps v_iters v_calls].
-Ltac step_by H tac :=
-  eapply star_step;
-  [ rewrite (step_at c C _ _ _ _ _ _ _ _ _ (code_at_head _ _ _ _ H)); cbn [exec_instr v_stk v_st v_esc v_escs v_caps v_iters]; tac; reflexivity
-  | vmsimp ].
-Ltac lens := cbn [length app]; rewrite ?app_length; cbn [length app]; rewrite ?app_length; cbn [length app]; rewrite ?app_length; cbn [length]; lia.
-
-Lemma post_endpc sg lc e1 e2 stk s' esc escs caps its calls σ' :
-  e1 = e2 \/ sg <> SigNormal ->
-  post sg lc e1 stk s' esc escs caps its calls σ' -> post sg lc e2 stk s' esc escs caps its calls σ'.
-Proof. intros [->|H]; [auto|]. destruct sg; [congruence|auto|auto]. Qed.
-
-(* trailing steps that only move the pc extend a normal completion; a signal has already left *)
-Lemma post_then sg lc e1 e2 stk s' esc escs caps its calls σ' :
-  post sg lc e1 stk s' esc escs caps its calls σ' ->
-  star (mkVm e1 stk s' esc escs caps its calls) (mkVm e2 stk s' esc escs caps its calls) ->
-  exists σ'', star σ' σ'' /\ post sg lc e2 stk s' esc escs caps its calls σ''.
-Proof.
-  intros Hp Hs. destruct sg; cbn [post] in *.
-  - subst. eexists; split; [exact Hs|reflexivity].
-  - exists σ'. split; [constructor|exact Hp].
-  - exists σ'. split; [constructor|exact Hp].
-Qed.
-
-Notation postO := (L2.Simulation.postO C).
-
-Lemma postO_endpc sg lc e1 e2 stk s' esc escs caps its calls σ' :
-  e1 = e2 \/ sg <> SigNormal ->
-  postO sg lc e1 stk s' esc escs caps its calls σ' -> postO sg lc e2 stk s' esc escs caps its calls σ'.
-Proof. intros H [P|O]; [left; eapply post_endpc; eauto|right; exact O]. Qed.
-
-Lemma postO_then sg lc e1 e2 stk s' esc escs caps its calls σ' :
-  postO sg lc e1 stk s' esc escs caps its calls σ' ->
-  star (mkVm e1 stk s' esc escs caps its calls) (mkVm e2 stk s' esc escs caps its calls) ->
-  exists σ'', star σ' σ'' /\ postO sg lc e2 stk s' esc escs caps its calls σ''.
-Proof.
-  intros [P|O] Hs.
-  - destruct (post_then _ _ _ _ _ _ _ _ _ _ _ _ P Hs) as [σ2 [S2 P2]]. exists σ2. split; [exact S2|left; exact P2].
-  - exists σ'. split; [constructor|right; exact O].
-Qed.
-
-Lemma overflow_step σ : overflow C σ -> step c C σ = Err E_InvalidOperation.
-Proof.
-  intros [Hn (k & r & Hs & Hk)]. unfold step. rewrite Hn. cbn [exec_instr]. rewrite Hs. cbn [bind do_bin].
-  assert (Hf : in_i128b (k + 1) = false).
-  { unfold in_i128b, in_i128. apply andb_false_intro2. apply Z.leb_gt. lia. }
-  rewrite Hf. reflexivity.
-Qed.
-
-Lemma cleanup_sim p : forall pc stk s esc escs caps its calls,
-  fits p (length (s_env s)) (length escs) (length caps) ->
-  code_at C pc (cleanup_code p) ->
-  star (mkVm pc stk s esc escs caps its calls)
-       (unwound (pc + length (cleanup_code p)) p stk s esc escs caps its calls).
-Proof.
-  induction p as [|k p IH]; intros pc stk s esc escs caps its calls Hf Hc.
-  - cbn. rewrite Nat.add_0_r. constructor.
-  - cbn [cleanup_code flat_map] in Hc |- *. fold (cleanup_code p) in Hc |- *.
-    destruct k; cbn [fits] in Hf; destruct Hf as [H1 Hf]; cbn [unwound app] in Hc |- *.
-    + destruct (s_env s) as [|f0 r0] eqn:Ee; [cbn in H1; lia|].
-      step_by Hc ltac:(rewrite Ee). apply code_at_tail in Hc.
-      eapply star_eq. { eapply IH; [|exact Hc]. unfold pop_frame. cbn [s_env]. rewrite Ee. cbn [tl length] in *. replace (length r0) with (S (length r0) - 1) by lia. exact Hf. }
-      f_equal. cbn [length]. lia.
-    + destruct caps as [|o cs]; [cbn in H1; lia|].
-      step_by Hc idtac. apply code_at_tail in Hc. step_by Hc idtac. apply code_at_tail in Hc.
-      eapply star_eq. { eapply IH; [|exact Hc]. cbn [with_out s_env length] in *. replace (length cs) with (S (length cs) - 1) by lia. exact Hf. }
-      f_equal. cbn [length]. lia.
-    + destruct escs as [|e es]; [cbn in H1; lia|].
-      step_by Hc idtac. apply code_at_tail in Hc.
-      eapply star_eq. { eapply IH; [|exact Hc]. cbn [length] in *. replace (length es) with (S (length es) - 1) by lia. exact Hf. }
-      f_equal. cbn [length]. lia.
-Qed.
-
-Definition sim_list (fuel : nat) (inl : bool) (l : list stmt) : Prop :=
-  forall esc s sg s', exec_list c fuel esc s l = Ok (sg, s') ->
-  forall base lc stk escs caps its calls, code_at C base (compile_stmts l base lc) ->
-  (inl = true -> lc <> None) -> lc_fits lc (length (s_env s)) (length escs) (length caps) ->
-  exists σ', star (mkVm base stk s esc escs caps its calls) σ' /\
-             postO sg lc (base + length (compile_stmts l base lc)) stk s' esc escs caps its calls σ'.
-
-Definition sim_stmt (fuel : nat) (inl : bool) (t : stmt) : Prop :=
-  forall esc s sg s', exec c fuel esc s t = Ok (sg, s') ->
-  forall base lc stk escs caps its calls, code_at C base (compile_stmt t base lc) ->
-  (inl = true -> lc <> None) -> lc_fits lc (length (s_env s)) (length escs) (length caps) ->
-  exists σ', star (mkVm base stk s esc escs caps its calls) σ' /\
-             postO sg lc (base + length (compile_stmt t base lc)) stk s' esc escs caps its calls σ'.
-
-Lemma if_sim2 fuel esc els lc inl :
-  (forall l, forallb (l2_stmt inl) l = true -> sim_list fuel inl l) ->
-  match els with Some b => forallb (l2_stmt inl) b | None => true end = true ->
-  (inl = true -> lc <> None) ->
-  forall arms, forallb (fun p => l2_expr (fst p) && forallb (l2_stmt inl) (snd p)) arms = true ->
-  forall s sg s', if_arms (c_mode c) (eval c fuel esc) (exec_list c fuel esc) els s arms = Ok (sg, s') ->
-  forall base stk escs caps its calls,
-    code_at C base (if_code (fun b pc => compile_stmts b pc lc) els arms base) ->
-    lc_fits lc (length (s_env s)) (length escs) (length caps) ->
-    exists σ', star (mkVm base stk s esc escs caps its calls) σ' /\
-      postO sg lc (base + length (if_code (fun b pc => compile_stmts b pc lc) els arms base)) stk s' esc escs caps its calls σ'.
-Proof.
-  intros IHl Hels Hin. induction arms as [|[cnd body] r IHr]; intros Hw s sg s' He base stk escs caps its calls Hc Hf.
-  - cbn [if_arms if_code] in *. destruct els as [b|].
-    + apply (IHl b Hels _ _ _ _ He _ _ _ _ _ _ _ Hc Hin Hf).
-    + inversion He; subst. eexists; split; [constructor|]. left. cbn [post length]. now rewrite Nat.add_0_r.
-  - cbn [forallb fst snd] in Hw. apply andb_prop in Hw as [Hw Hr]. apply andb_prop in Hw as [Hcnd Hbody].
-    cbn [if_arms] in He. fold (if_arms (c_mode c) (eval c fuel esc) (exec_list c fuel esc) els) in He.
-    bstep He p1 E1. destruct p1 as [v s1]. bstep He t Et.
-    cbn [if_code] in Hc |- *. fold (if_code (fun b pc => compile_stmts b pc lc) els) in Hc |- *.
-    set (cc := compile_expr cnd base) in *.
-    set (ct := compile_stmts body (base + length cc + 1) lc) in *.
-    assert (Henv1 : s_env s1 = s_env s) by (eapply eval_env_proof; eauto).
-    assert (Hf1 : lc_fits lc (length (s_env s1)) (length escs) (length caps)) by (rewrite Henv1; exact Hf).
-    assert (Hcond : forall X, code_at C base (cc ++ X) ->
-              star (mkVm base stk s esc escs caps its calls) (mkVm (base + length cc) (v :: stk) s1 esc escs caps its calls)).
-    { intros X HX. eapply (sim_all c C fuel esc cnd Hcnd _ _ _ E1). eapply code_at_app_l; eauto. }
-    (* the two shapes: with an else part (elif or non-empty else) / without *)
-    set (cf := if_code (fun b pc => compile_stmts b pc lc) els r (base + length cc + 1 + length ct + 1)) in *.
-    assert (Hshape : (match r, nonempty_body els with [], None => False | _, _ => True end) \/ (r = [] /\ nonempty_body els = None)).
-    { destruct r; [destruct (nonempty_body els); [left; exact I|right; auto]|left; exact I]. }
-    destruct Hshape as [Hsh|[Hr0 Hne]].
-    + assert (Hcode : code_at C base (cc ++ [IJumpIfFalse (base + length cc + 1 + length ct + 1)] ++ ct
-                        ++ [IJump (base + length cc + 1 + length ct + 1 + length cf)] ++ cf) /\
-                      length (match r, nonempty_body els with
-                              | [], None => cc ++ [IJumpIfFalse (base + length cc + 1 + length ct)] ++ ct
-                              | _, _ => cc ++ [IJumpIfFalse (base + length cc + 1 + length ct + 1)] ++ ct
-                                          ++ [IJump (base + length cc + 1 + length ct + 1 + length cf)] ++ cf end)
-                      = length cc + 1 + length ct + 1 + length cf).
-      { destruct r; [destruct (nonempty_body els); [|contradiction]|]; (split; [exact Hc|lens]). }
-      destruct Hcode as [Hc' Hlen]. rewrite Hlen.
-      clear Hc Hlen. rename Hc' into Hc.
-      pose proof (Hcond _ Hc) as S1. apply code_at_app_r in Hc.
-      pose proof (code_at_head _ _ _ _ Hc) as Hj. apply code_at_tail in Hc.
-      replace (S (base + length cc)) with (base + length cc + 1) in * by lia.
-      destruct t.
-      * destruct (IHl body Hbody _ _ _ _ He (base + length cc + 1) lc stk escs caps its calls ltac:(eapply code_at_app_l; eauto) Hin Hf1) as [σ1 [S2 P2]].
-        fold ct in P2. apply code_at_app_r in Hc.
-        destruct (postO_then sg lc _ (base + (length cc + 1 + length ct + 1 + length cf)) _ _ _ _ _ _ _ _ P2) as [σ2 [S3 P3]].
-        { step_by Hc idtac. eapply star_eq; [constructor|]. f_equal. lia. }
-        exists σ2. split; [|exact P3].
-        eapply star_trans; [exact S1|].
-        eapply star_step. { rewrite (step_at c C _ _ _ _ _ _ _ _ _ Hj). cbn [exec_instr v_stk v_st]. rewrite Et. reflexivity. }
-        vmsimp. replace (S (base + length cc)) with (base + length cc + 1) in * by lia.
-        eapply star_trans; [exact S2|exact S3].
-      * apply code_at_app_r in Hc. apply code_at_tail in Hc.
-        eapply code_at_pc in Hc; [|instantiate (1 := base + length cc + 1 + length ct + 1); lia].
-        destruct (IHr Hr _ _ _ He _ stk escs caps its calls Hc Hf1) as [σ1 [S2 P2]].
-        exists σ1. split.
-        -- eapply star_trans; [exact S1|].
-           eapply star_step. { rewrite (step_at c C _ _ _ _ _ _ _ _ _ Hj). cbn [exec_instr v_stk v_st]. rewrite Et. reflexivity. }
-           vmsimp. exact S2.
-        -- eapply postO_endpc; [|exact P2]. left. fold cf. lia.
-    + subst r. rewrite Hne in Hc |- *.
-      pose proof (Hcond _ Hc) as S1. apply code_at_app_r in Hc.
-      pose proof (code_at_head _ _ _ _ Hc) as Hj. apply code_at_tail in Hc.
-      replace (S (base + length cc)) with (base + length cc + 1) in * by lia.
-      destruct t.
-      * destruct (IHl body Hbody _ _ _ _ He (base + length cc + 1) lc stk escs caps its calls Hc Hin Hf1) as [σ1 [S2 P2]].
-        exists σ1. split.
-        -- eapply star_trans; [exact S1|].
-           eapply star_step. { rewrite (step_at c C _ _ _ _ _ _ _ _ _ Hj). cbn [exec_instr v_stk v_st]. rewrite Et. reflexivity. }
-           vmsimp. replace (S (base + length cc)) with (base + length cc + 1) in * by lia. exact S2.
-        -- fold ct in P2. eapply postO_endpc; [|exact P2]. left. lens.
-      * cbn [if_arms] in He.
-        assert (Hr0 : (sg, s') = (SigNormal, s1)).
-        { destruct els as [[|x b]|]; try discriminate Hne.
-          - eapply exec_list_nil; eauto.
-          - inversion He; reflexivity. }
-        inversion Hr0; subst. eexists. split; [|left; reflexivity].
-        eapply star_trans; [exact S1|].
-        eapply star_step. { rewrite (step_at c C _ _ _ _ _ _ _ _ _ Hj). cbn [exec_instr v_stk v_st]. rewrite Et. reflexivity. }
-        vmsimp. fold ct. eapply star_eq; [constructor|]. f_equal. lens.
-Qed.
-
-
-Lemma post_enter k sg lc e stk s2 esc escs caps its calls σ' X :
-  post sg (enter_scope k lc) e stk s2 esc escs caps its calls σ' -> sg <> SigNormal ->
-  (forall l pc, unwound pc (k :: lc_pending l) stk s2 esc escs caps its calls = X l pc) ->
-  exists l, lc = Some l /\ σ' = X l (match sg with SigBreak => lc_end l | _ => lc_iter l end).
-Proof.
-  intros Hp Hn HX. destruct sg; [congruence| |]; cbn [post] in Hp; destruct Hp as [l' [Hl ->]];
-    destruct lc as [l|]; cbn [enter_scope] in Hl; try discriminate; inversion Hl; subst l'; cbn [lc_end lc_iter lc_pending];
-    exists l; (split; [reflexivity|apply HX]).
-Qed.
-
-Lemma fits_enter k lc nenv nescs ncaps :
-  lc_fits lc nenv nescs ncaps ->
-  lc_fits (enter_scope k lc)
-    (match k with ClFrame => S nenv | _ => nenv end)
-    (match k with ClAutoEscape => S nescs | _ => nescs end)
-    (match k with ClCapture => S ncaps | _ => ncaps end).
-Proof.
-  destruct lc as [l|]; cbn [lc_fits enter_scope lc_pending]; [|auto].
-  intros H. destruct k; cbn [fits]; (split; [lia|]); rewrite Nat.sub_succ, Nat.sub_0_r; exact H.
-Qed.
-
-Lemma enter_some k lc : lc <> None -> enter_scope k lc <> None.
-Proof. destruct lc; cbn; congruence. Qed.
-
-
-Lemma unwound_jump p : forall pc t stk s esc escs caps its calls, nth_error C pc = Some (IJump t) ->
-  step c C (unwound pc p stk s esc escs caps its calls) = Ok (unwound t p stk s esc escs caps its calls).
-Proof.
-  induction p as [|k p IH]; intros pc t stk s esc escs caps its calls H; cbn [unwound].
-  - rewrite (step_at c C _ _ _ _ _ _ _ _ _ H). reflexivity.
-  - destruct k; [apply IH; exact H| |].
-    + destruct caps; [rewrite (step_at c C _ _ _ _ _ _ _ _ _ H); reflexivity|apply IH; exact H].
-    + destruct escs; [rewrite (step_at c C _ _ _ _ _ _ _ _ _ H); reflexivity|apply IH; exact H].
-Qed.
-
-Lemma assign_sim tgt s item s3 pc stk esc escs caps its calls :
-  bind_target tgt s item = Ok s3 -> code_at C pc (assign_code tgt) ->
-  star (mkVm pc (item :: stk) s esc escs caps its calls)
-       (mkVm (pc + length (assign_code tgt)) stk s3 esc escs caps its calls).
-Proof.
-  intros Hb Hc. destruct tgt as [x|x y]; cbn [assign_code bind_target length] in *.
-  - inversion Hb; subst. step_by Hc idtac. eapply star_eq; [constructor|]. f_equal. lia.
-  - destruct item as [| | | | | |l| | |]; try discriminate. destruct l as [|a [|b [|? ?]]]; try discriminate.
-    inversion Hb; subst.
-    step_by Hc idtac. apply code_at_tail in Hc. cbn [app]. step_by Hc idtac. apply code_at_tail in Hc.
-    step_by Hc idtac. eapply star_eq; [constructor|]. f_equal. lia.
-Qed.
-
-(* Interp's state [s] and the VM's state [sv] at the Iterate instruction before iteration [i] *)
-Definition head_rel (i n : Z) (s sv : st) : Prop :=
-  s_clos sv = s_clos s /\ s_out sv = s_out s /\ s_asks sv = s_asks s /\
-  exists f fv e, s_env s = f :: e /\ s_env sv = fv :: e /\ f_closure fv = f_closure f /\
-                 f_closure_ctx fv = f_closure_ctx f /\ f_loop fv = Some ((i - 1)%Z, n, true).
-
-(* ... and when the loop is left *)
-Definition tail_rel (n : Z) (s5 sv5 : st) : Prop :=
-  s_clos sv5 = s_clos s5 /\ s_out sv5 = s_out s5 /\ s_asks sv5 = s_asks s5 /\ tl (s_env sv5) = tl (s_env s5) /\
-  exists fv e k, s_env sv5 = fv :: e /\ f_loop fv = Some (k, n, true).
-
-Lemma hdl_some s l : hdl s = Some (Some l) -> exists f e, s_env s = f :: e /\ f_loop f = Some l.
-Proof. unfold hdl. destruct (s_env s) as [|f e]; intros H; inversion H. eauto. Qed.
-
-Lemma bind_target_hdl tgt s item s3 : bind_target tgt s item = Ok s3 -> hdl s3 = hdl s.
-Proof.
-  destruct tgt as [x|x y]; cbn [bind_target]; intros H.
-  - inversion H. apply store_hdl.
-  - destruct item as [| | | | | |l| | |]; try discriminate. destruct l as [|a [|b [|? ?]]]; try discriminate.
-    inversion H. now rewrite !store_hdl.
-Qed.
-
-Lemma loop_sim fuel esc tgt body n it loop_end body_at its0 :
-  sim_list fuel true body -> forallb (l2_stmt true) body = true ->
-  code_at C it ([IIterate loop_end] ++ assign_code tgt ++ compile_stmts body body_at (Some (mkL it loop_end [])) ++ [IJump it]) ->
-  body_at = it + 1 + length (assign_code tgt) ->
-  loop_end = body_at + length (compile_stmts body body_at (Some (mkL it loop_end []))) + 1 ->
-  forall items s i s5, loop_items (exec_list c fuel esc) tgt body n s i items = Ok s5 ->
-  forall sv stk escs caps calls, head_rel i n s sv ->
-    (exists sv5 rest, star (mkVm it stk sv esc escs caps (items :: its0) calls)
-                           (mkVm loop_end stk sv5 esc escs caps (rest :: its0) calls) /\ tail_rel n s5 sv5)
-    \/ (exists σo, star (mkVm it stk sv esc escs caps (items :: its0) calls) σo /\ overflow C σo).
-Proof.
-  intros IHb Hbody Hc Hba Hle.
-  pose proof (code_at_head _ _ _ _ Hc) as Hit.
-  pose proof (code_at_tail _ _ _ _ Hc) as Hc1.
-  pose proof (code_at_app_l _ _ _ _ Hc1) as Hca.
-  pose proof (code_at_app_r _ _ _ _ Hc1) as Hc2.
-  replace (S it + length (assign_code tgt)) with body_at in Hc2 by lia.
-  pose proof (code_at_app_l _ _ _ _ Hc2) as Hcb.
-  pose proof (code_at_head _ _ _ _ (code_at_app_r _ _ _ _ Hc2)) as Hj.
-  induction items as [|item r IH]; intros s i s5 He sv stk escs caps calls Hh.
-  - cbn [loop_items] in He. inversion He; subst s5.
-    left. exists sv, []. split.
-    + apply star_one. rewrite (step_at c C _ _ _ _ _ _ _ _ _ Hit). reflexivity.
-    + destruct Hh as (A & B & D & f & fv & e & E1 & E2 & _ & _ & E5). repeat split; auto.
-      * rewrite E1, E2. reflexivity.
-      * eauto.
-  - destruct Hh as (A & B & D & f & fv & e & E1 & E2 & E3 & E4 & E5).
-    cbn [loop_items] in He. fold (loop_items (exec_list c fuel esc) tgt body n) in He. rewrite E1 in He.
-    set (s' := with_env s (mkFrame [] (Some (i, n, true)) (f_closure f) (f_closure_ctx f) false :: e)) in *.
-    bstep He s3 Eb. bstep He p4 Ex. destruct p4 as [sg s4].
-    (* Iterate *)
-    assert (S1 : star (mkVm it stk sv esc escs caps ((item :: r) :: its0) calls)
-                      (mkVm (S it) (item :: stk) s' esc escs caps (r :: its0) calls)).
-    { apply star_one. rewrite (step_at c C _ _ _ _ _ _ _ _ _ Hit). cbn [exec_instr v_iters v_st v_stk v_pc v_esc v_escs v_caps v_calls].
-      rewrite E2. cbn [advance_loop]. rewrite E5. unfold s', with_env. rewrite A, B, D, E3, E4.
-      replace (i - 1 + 1)%Z with i by lia. reflexivity. }
-    pose proof (assign_sim tgt s' item s3 (S it) stk esc escs caps (r :: its0) calls Eb Hca) as S2.
-    replace (S it + length (assign_code tgt)) with body_at in S2 by lia.
-    assert (Hl3 : hdl s3 = Some (Some (i, n, true))).
-    { rewrite (bind_target_hdl _ _ _ _ Eb). reflexivity. }
-    assert (Hl4 : hdl s4 = Some (Some (i, n, true))).
-    { rewrite <- Hl3. eapply (proj2 (frag_hdl c fuel)); eauto. }
-    destruct (IHb _ _ _ _ Ex body_at (Some (mkL it loop_end [])) stk escs caps (r :: its0) calls Hcb ltac:(discriminate) I) as [σ1 [S3 P3]].
-    destruct (hdl_some _ _ Hl4) as (f4 & e4 & Ee4 & Ef4).
-    assert (Hh4 : head_rel (i + 1) n s4 s4).
-    { repeat split; auto. exists f4, f4, e4. repeat split; auto. rewrite Ef4. f_equal. f_equal. f_equal. lia. }
-    destruct P3 as [P3|O3];
-      [|right; exists σ1; split; [eapply star_trans; [exact S1|]; eapply star_trans; [exact S2|exact S3]|exact O3]].
-    destruct sg.
-    + (* normal end of the body: Jump back *)
-      cbn [post] in P3. subst σ1.
-      assert (S34 : star (mkVm it stk sv esc escs caps ((item :: r) :: its0) calls) (mkVm it stk s4 esc escs caps (r :: its0) calls)).
-      { eapply star_trans; [exact S1|]. eapply star_trans; [exact S2|]. eapply star_trans; [exact S3|].
-        apply star_one. rewrite (step_at c C _ _ _ _ _ _ _ _ _ Hj). reflexivity. }
-      destruct (IH _ _ _ He s4 stk escs caps calls Hh4) as [(sv5 & rest & S4 & T)|(σo & S4 & O4)].
-      * left. exists sv5, rest. split; [|exact T]. eapply star_trans; [exact S34|exact S4].
-      * right. exists σo. split; [eapply star_trans; [exact S34|exact S4]|exact O4].
-    + (* break *)
-      inversion He; subst s5. cbn [post] in P3. destruct P3 as [l [Hl ->]]. inversion Hl; subst l. cbn [unwound lc_end lc_pending] in *.
-      left. exists s4, r. split.
-      * eapply star_trans; [exact S1|]. eapply star_trans; [exact S2|exact S3].
-      * repeat split; auto. exists f4, e4, i. split; assumption.
-    + (* continue *)
-      cbn [post] in P3. destruct P3 as [l [Hl ->]]. inversion Hl; subst l. cbn [unwound lc_iter lc_pending] in *.
-      assert (S34 : star (mkVm it stk sv esc escs caps ((item :: r) :: its0) calls) (mkVm it stk s4 esc escs caps (r :: its0) calls)).
-      { eapply star_trans; [exact S1|]. eapply star_trans; [exact S2|exact S3]. }
-      destruct (IH _ _ _ He s4 stk escs caps calls Hh4) as [(sv5 & rest & S4 & T)|(σo & S4 & O4)].
-      * left. exists sv5, rest. split; [|exact T]. eapply star_trans; [exact S34|exact S4].
-      * right. exists σo. split; [eapply star_trans; [exact S34|exact S4]|exact O4].
-Qed.
-
-
-(* ---- the accumulate loop of a filtered for ---- *)
-Lemma store_relab L s x v : s_env s <> [] -> store (relab L s) x v = relab L (store s x v).
-Proof.
-  intros Hne. unfold relab at 1. destruct (s_env s) as [|f e] eqn:E; [congruence|].
-  unfold relab, store. cbn [with_env s_env s_clos s_out s_asks]. rewrite E.
-  cbn [s_env with_env f_locals f_loop f_closure f_closure_ctx f_base s_clos s_out s_asks]. reflexivity.
-Qed.
-
-Lemma store_env_ne s x v : s_env s <> [] -> s_env (store s x v) <> [].
-Proof. unfold store. destruct (s_env s); [congruence|]. cbn [s_env]. discriminate. Qed.
-
-Lemma bind_target_relab L tgt s item s3 : s_env s <> [] ->
-  bind_target tgt s item = Ok s3 -> bind_target tgt (relab L s) item = Ok (relab L s3).
-Proof.
-  intros Hne. destruct tgt as [x|x y]; cbn [bind_target]; intros H.
-  - inversion H; subst. now rewrite store_relab.
-  - destruct item as [| | | | | |l| | |]; try discriminate. destruct l as [|a [|b [|? ?]]]; try discriminate.
-    inversion H; subst. rewrite store_relab by exact Hne. rewrite store_relab by (apply store_env_ne; exact Hne). reflexivity.
-Qed.
-
-(* closure fields of the innermost frame *)
-Definition topc (s : st) : option (option nat * option nat) :=
-  match s_env s with f :: _ => Some (f_closure f, f_closure_ctx f) | [] => None end.
-Lemma store_topc s x v : topc (store s x v) = topc s.
-Proof. unfold topc, store. destruct (s_env s) as [|f r] eqn:E; cbn [s_env f_closure f_closure_ctx]; rewrite ?E; reflexivity. Qed.
-Lemma bind_target_topc tgt s item s3 : bind_target tgt s item = Ok s3 -> topc s3 = topc s.
-Proof.
-  destruct tgt as [x|x y]; cbn [bind_target]; intros H.
-  - inversion H. apply store_topc.
-  - destruct item as [| | | | | |l| | |]; try discriminate. destruct l as [|a [|b [|? ?]]]; try discriminate.
-    inversion H. now rewrite !store_topc.
-Qed.
-
-Lemma lenZ_cons {A} (x : A) l : lenZ (x :: l) = (lenZ l + 1)%Z.
-Proof. unfold lenZ. cbn [length]. lia. Qed.
-Lemma lenZ_nonneg {A} (l : list A) : (0 <= lenZ l)%Z.
-Proof. unfold lenZ. lia. Qed.
-
-Lemma counter_step z : (0 <= z)%Z -> in_i128b (z + 1) = true \/ (i128_max <= z)%Z.
-Proof.
-  intros Hz. destruct (in_i128b (z + 1)) eqn:E; [left; reflexivity|right].
-  unfold in_i128b, in_i128 in E. apply andb_false_iff in E. destruct E as [E|E]; apply Z.leb_gt in E.
-  - assert (i128_min <= 0)%Z by (vm_compute; discriminate). lia.
-  - lia.
-Qed.
-
-(* Interp's state [s] between two items and the VM's [sv] at the Iterate of the accumulate loop: the VM
-   keeps ONE loop frame (hidden counters, no loop variable) on top of the scopes the interpreter has *)
-Definition frel (i n : Z) (s sv : st) : Prop :=
-  s_clos sv = s_clos s /\ s_out sv = s_out s /\ s_asks sv = s_asks s /\
-  exists fv, s_env sv = fv :: s_env s /\ f_loop fv = Some ((i - 1)%Z, n, false) /\
-             f_closure fv = None /\ f_closure_ctx fv = None.
-
-Lemma filter_sim fuel esc tgt fe it1 jf its0 n :
-  l2_expr fe = true ->
-  code_at C it1 ([IIterate (jf + 7)] ++ [IDupTop] ++ assign_code tgt ++ compile_expr fe (it1 + 1 + 1 + length (assign_code tgt))
-      ++ [IJumpIfFalse (jf + 5); ISwap; ILoadConst (VInt 1); IBinOp OAdd; IJump (jf + 6); IDiscardTop; IJump it1]) ->
-  jf = it1 + 1 + 1 + length (assign_code tgt) + length (compile_expr fe (it1 + 1 + 1 + length (assign_code tgt))) ->
-  forall items s kept s3, filter_items (c_mode c) (eval c fuel esc) tgt fe s items = Ok (kept, s3) ->
-  forall sv acc i stk escs caps calls,
-    frel i n s sv ->
-    (exists sv3 i3, star (mkVm it1 (VInt (lenZ acc) :: acc ++ stk) sv esc escs caps (items :: its0) calls)
-                         (mkVm (jf + 7) (VInt (lenZ acc + lenZ kept) :: rev kept ++ acc ++ stk) sv3 esc escs caps ([] :: its0) calls)
-       /\ frel i3 n s3 sv3)
-    \/ (exists σo, star (mkVm it1 (VInt (lenZ acc) :: acc ++ stk) sv esc escs caps (items :: its0) calls) σo /\ overflow C σo).
-Proof.
-  intros Hw Hc Hjf.
-  pose proof (code_at_head _ _ _ _ Hc) as Hit.
-  pose proof (code_at_tail _ _ _ _ Hc) as Hc1. cbn [app] in Hc1.
-  pose proof (code_at_head _ _ _ _ Hc1) as Hdup.
-  pose proof (code_at_tail _ _ _ _ Hc1) as Hc2.
-  pose proof (code_at_app_l _ _ _ _ Hc2) as Hca.
-  pose proof (code_at_app_r _ _ _ _ Hc2) as Hc3.
-  replace (S (S it1) + length (assign_code tgt)) with (it1 + 1 + 1 + length (assign_code tgt)) in Hc3 by lia.
-  pose proof (code_at_app_l _ _ _ _ Hc3) as Hcf.
-  pose proof (code_at_app_r _ _ _ _ Hc3) as Hc4. rewrite <- Hjf in Hc4.
-  pose proof (code_at_head _ _ _ _ Hc4) as H0.
-  pose proof (code_at_head _ _ _ _ (code_at_tail _ _ _ _ Hc4)) as H1.
-  pose proof (code_at_head _ _ _ _ (code_at_tail _ _ _ _ (code_at_tail _ _ _ _ Hc4))) as H2.
-  pose proof (code_at_head _ _ _ _ (code_at_tail _ _ _ _ (code_at_tail _ _ _ _ (code_at_tail _ _ _ _ Hc4)))) as H3.
-  pose proof (code_at_head _ _ _ _ (code_at_tail _ _ _ _ (code_at_tail _ _ _ _ (code_at_tail _ _ _ _ (code_at_tail _ _ _ _ Hc4))))) as H4.
-  pose proof (code_at_head _ _ _ _ (code_at_tail _ _ _ _ (code_at_tail _ _ _ _ (code_at_tail _ _ _ _ (code_at_tail _ _ _ _ (code_at_tail _ _ _ _ Hc4)))))) as H5.
-  pose proof (code_at_head _ _ _ _ (code_at_tail _ _ _ _ (code_at_tail _ _ _ _ (code_at_tail _ _ _ _ (code_at_tail _ _ _ _ (code_at_tail _ _ _ _ (code_at_tail _ _ _ _ Hc4))))))) as H6.
-  induction items as [|item r IH]; intros s kept s3 He sv acc i stk escs caps calls Hh.
-  - cbn [filter_items] in He. inversion He; subst kept s3.
-    left. exists sv, i. split; [|exact Hh].
-    apply star_one. rewrite (step_at c C _ _ _ _ _ _ _ _ _ Hit). cbn [exec_instr v_iters goto v_st v_stk v_esc v_escs v_caps v_calls].
-    cbn [lenZ length rev app]. unfold lenZ. cbn [length]. rewrite Z.add_0_r. reflexivity.
-  - destruct Hh as (A & Bq & D & fv & E1 & E2 & E3 & E4).
-    cbn [filter_items] in He. fold (filter_items (c_mode c) (eval c fuel esc) tgt fe) in He.
-    set (sf := push_frame s (mkFrame [] (Some (0%Z, 0%Z, false)) None None false)) in *.
-    bstep He sf1 Eb. bstep He p2 Ee. destruct p2 as [v sf2]. bstep He keep Ek. bstep He p3 Er. destruct p3 as [rest s4].
-    set (L := Some (i, n, false)).
-    (* Iterate *)
-    assert (S1 : star (mkVm it1 (VInt (lenZ acc) :: acc ++ stk) sv esc escs caps ((item :: r) :: its0) calls)
-                      (mkVm (S (S it1)) (item :: item :: VInt (lenZ acc) :: acc ++ stk) (relab L sf) esc escs caps (r :: its0) calls)).
-    { eapply star_step.
-      { rewrite (step_at c C _ _ _ _ _ _ _ _ _ Hit). cbn [exec_instr v_iters v_st v_stk v_pc v_esc v_escs v_caps v_calls].
-        rewrite E1. cbn [advance_loop]. rewrite E2. reflexivity. }
-      eapply star_eq. { apply star_one. rewrite (step_at c C _ _ _ _ _ _ _ _ _ Hdup). reflexivity. }
-      cbn [next v_pc v_stk v_st v_esc v_escs v_caps v_iters v_calls]. f_equal.
-      unfold relab, sf, push_frame, with_env, L. cbn [s_env s_clos s_out s_asks f_locals f_closure f_closure_ctx f_base].
-      rewrite A, Bq, D, E3, E4. replace (i - 1 + 1)%Z with i by lia. reflexivity. }
-    assert (Hsf : s_env sf <> []) by (unfold sf, push_frame; cbn [s_env]; discriminate).
-    pose proof (bind_target_relab L tgt sf item sf1 Hsf Eb) as Eb'.
-    pose proof (assign_sim tgt _ item _ (S (S it1)) (item :: VInt (lenZ acc) :: acc ++ stk) esc escs caps (r :: its0) calls Eb' Hca) as S2.
-    replace (S (S it1) + length (assign_code tgt)) with (it1 + 1 + 1 + length (assign_code tgt)) in S2 by lia.
-    assert (Hl1 : hdl sf1 = Some (Some (0%Z, 0%Z, false))) by (rewrite (bind_target_hdl _ _ _ _ Eb); reflexivity).
-    assert (Hth : top_hidden sf1).
-    { unfold top_hidden. destruct (hdl_some _ _ Hl1) as (f1 & e1 & Ee1 & Ef1). rewrite Ee1, Ef1. reflexivity. }
-    destruct (eval_relab c L eq_refl fuel esc fe Hw sf1 v sf2 Hth Ee) as [Ee' Henv2].
-    pose proof (sim_all c C fuel esc fe Hw _ _ _ Ee' _ (item :: VInt (lenZ acc) :: acc ++ stk) escs caps (r :: its0) calls Hcf) as S3.
-    rewrite <- Hjf in S3.
-    (* the relation for the next item *)
-    assert (Hc1' : topc sf1 = Some (None, None)) by (rewrite (bind_target_topc _ _ _ _ Eb); reflexivity).
-    assert (Hh' : frel (i + 1) n (pop_frame sf2) (relab L sf2)).
-    { destruct (relab_fields L sf2) as (R1 & R2 & R3).
-      unfold frel. cbn [pop_frame s_clos s_out s_asks s_env]. repeat split; auto.
-      rewrite relab_env. unfold topc in Hc1'. rewrite <- Henv2 in Hc1'.
-      destruct (s_env sf2) as [|f2 e2]; [discriminate|]. inversion Hc1' as [[Q1 Q2]].
-      eexists. split; [reflexivity|]. cbn [tl f_loop f_closure f_closure_ctx]. repeat split; auto.
-      unfold L. f_equal. f_equal. f_equal. lia. }
-    pose proof (lenZ_nonneg acc) as Hn0.
-    destruct keep.
-    + (* kept: Swap; LoadConst 1; Add; Jump; Jump *)
-      inversion He; subst kept s3.
-      assert (S5 : star (mkVm it1 (VInt (lenZ acc) :: acc ++ stk) sv esc escs caps ((item :: r) :: its0) calls)
-                        (mkVm (S (S (S jf))) (VInt 1 :: VInt (lenZ acc) :: item :: acc ++ stk) (relab L sf2) esc escs caps (r :: its0) calls)).
-      { eapply star_trans; [exact S1|]. eapply star_trans; [exact S2|]. eapply star_trans; [exact S3|].
-        eapply star_step. { rewrite (step_at c C _ _ _ _ _ _ _ _ _ H0). cbn [exec_instr v_stk v_st]. rewrite Ek. reflexivity. }
-        vmsimp.
-        eapply star_step. { rewrite (step_at c C _ _ _ _ _ _ _ _ _ H1). reflexivity. } vmsimp.
-        apply star_one. rewrite (step_at c C _ _ _ _ _ _ _ _ _ H2). reflexivity. }
-      destruct (counter_step (lenZ acc) Hn0) as [Hr|Hr].
-      * destruct (IH _ _ _ Er (relab L sf2) (item :: acc) (i + 1)%Z stk escs caps calls Hh') as [(sv3 & i3 & S4 & F4)|(σo & S4 & O4)].
-        -- left. exists sv3, i3. split; [|exact F4].
-           eapply star_trans; [exact S5|].
-           eapply star_step.
-           { rewrite (step_at c C _ _ _ _ _ _ _ _ _ H3). cbn [exec_instr v_stk v_st bind do_bin]. rewrite Hr. reflexivity. }
-           vmsimp.
-           eapply star_step. { rewrite (step_at c C _ _ _ _ _ _ _ _ _ H4). reflexivity. } vmsimp.
-           replace (S (S (S (S (S (S jf)))))) with (jf + 6) in H6 by lia.
-           eapply star_step. { rewrite (step_at c C _ _ _ _ _ _ _ _ _ H6). reflexivity. } vmsimp.
-           rewrite lenZ_cons in S4. cbn [app] in S4.
-           eapply star_eq; [exact S4|]. f_equal.
-           rewrite !lenZ_cons. cbn [rev]. rewrite <- !app_assoc. cbn [app]. f_equal. f_equal. lia.
-        -- right. exists σo. split; [|exact O4].
-           eapply star_trans; [exact S5|].
-           eapply star_step.
-           { rewrite (step_at c C _ _ _ _ _ _ _ _ _ H3). cbn [exec_instr v_stk v_st bind do_bin]. rewrite Hr. reflexivity. }
-           vmsimp.
-           eapply star_step. { rewrite (step_at c C _ _ _ _ _ _ _ _ _ H4). reflexivity. } vmsimp.
-           replace (S (S (S (S (S (S jf)))))) with (jf + 6) in H6 by lia.
-           eapply star_step. { rewrite (step_at c C _ _ _ _ _ _ _ _ _ H6). reflexivity. } vmsimp.
-           rewrite lenZ_cons in S4. cbn [app] in S4. exact S4.
-      * right. eexists. split; [exact S5|]. split; [exact H3|]. cbn [v_stk]. eauto.
-    + (* dropped: DiscardTop; Jump *)
-      inversion He; subst kept s3.
-      assert (S5 : star (mkVm it1 (VInt (lenZ acc) :: acc ++ stk) sv esc escs caps ((item :: r) :: its0) calls)
-                        (mkVm it1 (VInt (lenZ acc) :: acc ++ stk) (relab L sf2) esc escs caps (r :: its0) calls)).
-      { eapply star_trans; [exact S1|]. eapply star_trans; [exact S2|]. eapply star_trans; [exact S3|].
-        eapply star_step. { rewrite (step_at c C _ _ _ _ _ _ _ _ _ H0). cbn [exec_instr v_stk v_st]. rewrite Ek. reflexivity. }
-        vmsimp.
-        replace (S (S (S (S (S jf))))) with (jf + 5) in H5 by lia.
-        eapply star_step. { rewrite (step_at c C _ _ _ _ _ _ _ _ _ H5). reflexivity. } vmsimp.
-        replace (S (jf + 5)) with (jf + 6) by lia.
-        replace (S (S (S (S (S (S jf)))))) with (jf + 6) in H6 by lia.
-        apply star_one. rewrite (step_at c C _ _ _ _ _ _ _ _ _ H6). reflexivity. }
-      destruct (IH _ _ _ Er (relab L sf2) acc (i + 1)%Z stk escs caps calls Hh') as [(sv3 & i3 & S4 & F4)|(σo & S4 & O4)].
-      * left. exists sv3, i3. split; [eapply star_trans; [exact S5|exact S4]|exact F4].
-      * right. exists σo. split; [eapply star_trans; [exact S5|exact S4]|exact O4].
-Qed.
-
-(* compile_for_loop with named positions; [f_pre]: everything up to and including PushLoop(flags) *)
-Definition f_flags (rc : bool) : nat := LOOP_FLAG_WITH_LOOP_VAR + (if rc then LOOP_FLAG_RECURSIVE else 0).
-Definition f_pre (tgt : target) (iter : expr) (flt : option expr) (rc : bool) (base : nat) : list instr :=
-  match flt with
-  | None => compile_expr iter base ++ [IPushLoop (f_flags rc)]
-  | Some fe =>
-      let ci := compile_expr iter (base + 1) in
-      let it1 := base + 1 + length ci + 1 in
-      let ca := assign_code tgt in
-      let cf := compile_expr fe (it1 + 1 + 1 + length ca) in
-      let jf := it1 + 1 + 1 + length ca + length cf in
-      [ILoadConst (VInt 0)] ++ ci ++ [IPushLoop 0; IIterate (jf + 7)] ++ [IDupTop] ++ ca ++ cf
-        ++ [IJumpIfFalse (jf + 5); ISwap; ILoadConst (VInt 1); IBinOp OAdd; IJump (jf + 6); IDiscardTop;
-            IJump it1; IPopLoopFrame; IBuildList None; IPushLoop (f_flags rc)]
-  end.
-Definition f_it tgt iter flt rc (base : nat) : nat := base + length (f_pre tgt iter flt rc base).
-Definition f_body_at tgt iter flt rc (base : nat) : nat := f_it tgt iter flt rc base + 1 + length (assign_code tgt).
-Definition f_end tgt iter flt rc (body : list stmt) (base : nat) : nat :=
-  f_body_at tgt iter flt rc base
-  + length (compile_stmts body (f_body_at tgt iter flt rc base) (Some (mkL (f_it tgt iter flt rc base) 0 []))) + 1.
-
-Lemma compile_for_eq tgt iter flt body els rc base lc :
-  compile_stmt (SFor tgt iter flt body els rc) base lc =
-  f_pre tgt iter flt rc base ++ [IIterate (f_end tgt iter flt rc body base)] ++ assign_code tgt
-    ++ compile_stmts body (f_body_at tgt iter flt rc base) (Some (mkL (f_it tgt iter flt rc base) (f_end tgt iter flt rc body base) []))
-    ++ match els with
-       | None | Some [] => [IJump (f_it tgt iter flt rc base); IPopLoopFrame]
-       | Some eb => [IJump (f_it tgt iter flt rc base); IPushDidNotIterate; IPopLoopFrame;
-                     IJumpIfFalse (f_end tgt iter flt rc body base + 3 + length (compile_stmts eb (f_end tgt iter flt rc body base + 3) lc))]
-                    ++ compile_stmts eb (f_end tgt iter flt rc body base + 3) lc
-       end.
-Proof.
-  cbn [compile_stmt]. unfold f_end, f_body_at, f_it, f_pre, f_flags, compile_stmts.
-  destruct flt; destruct els as [[|x b]|]; reflexivity.
-Qed.
-
-Lemma st_eta s : mkSt (s_env s) (s_clos s) (s_out s) (s_asks s) = s.
-Proof. destruct s; reflexivity. Qed.
-
-Lemma pre_sim fuel esc tgt iter flt rc base s iv s1 items0 items s2 stk escs caps its calls :
-  l2_expr iter = true -> match flt with Some fe => l2_expr fe | None => true end = true ->
-  eval c fuel esc s iter = Ok (iv, s1) -> loop_items_of (c_mode c) iv = Ok items0 ->
-  match flt with
-  | None => Ok (items0, s1)
-  | Some fe => filter_items (c_mode c) (eval c fuel esc) tgt fe s1 items0
-  end = Ok (items, s2) ->
-  code_at C base (f_pre tgt iter flt rc base) ->
-  star (mkVm base stk s esc escs caps its calls)
-       (mkVm (f_it tgt iter flt rc base) stk (push_frame s2 (mkFrame [] (Some ((-1)%Z, lenZ items, true)) None None false))
-             esc escs caps (items :: its) calls)
-  \/ (exists σo, star (mkVm base stk s esc escs caps its calls) σo /\ overflow C σo).
-Proof.
-  intros Hiter Hflt E1 E2 E3 Hc. unfold f_it.
-  assert (Hodd : Nat.odd (f_flags rc) = true) by (destruct rc; reflexivity).
-  destruct flt as [fe|]; cbn [f_pre] in Hc |- *.
-  - (* with filter *)
-    set (ci := compile_expr iter (base + 1)) in *.
-    set (it1 := base + 1 + length ci + 1) in *.
-    set (ca := assign_code tgt) in *.
-    set (cf := compile_expr fe (it1 + 1 + 1 + length ca)) in *.
-    set (jf := it1 + 1 + 1 + length ca + length cf) in *.
-    pose proof (code_at_head _ _ _ _ Hc) as H0. apply code_at_tail in Hc.
-    replace (S base) with (base + 1) in Hc by lia.
-    pose proof (sim_all c C fuel esc iter Hiter _ _ _ E1 (base + 1) (VInt 0 :: stk) escs caps its calls ltac:(eapply code_at_app_l; eauto)) as S1.
-    apply code_at_app_r in Hc. fold ci in Hc, S1.
-    pose proof (code_at_head _ _ _ _ Hc) as Hpl. apply code_at_tail in Hc.
-    replace (S (base + 1 + length ci)) with it1 in Hc by (unfold it1; lia).
-    (* the block of the accumulate loop *)
-    assert (Hblk : code_at C it1 (([IIterate (jf + 7)] ++ [IDupTop] ++ ca ++ cf
-               ++ [IJumpIfFalse (jf + 5); ISwap; ILoadConst (VInt 1); IBinOp OAdd; IJump (jf + 6); IDiscardTop; IJump it1])
-               ++ [IPopLoopFrame; IBuildList None; IPushLoop (f_flags rc)])).
-    { rewrite <- !app_assoc. cbn [app] in Hc |- *. exact Hc. }
-    pose proof (code_at_app_l _ _ _ _ Hblk) as Hloop. apply code_at_app_r in Hblk.
-    replace (it1 + length ([IIterate (jf + 7)] ++ [IDupTop] ++ ca ++ cf
-               ++ [IJumpIfFalse (jf + 5); ISwap; ILoadConst (VInt 1); IBinOp OAdd; IJump (jf + 6); IDiscardTop; IJump it1]))
-      with (jf + 7) in Hblk by (rewrite !app_length; cbn [length]; unfold jf; lia).
-    set (n0 := lenZ items0).
-    set (svl := push_frame s1 (mkFrame [] (Some ((-1)%Z, n0, false)) None None false)).
-    assert (S2 : star (mkVm base stk s esc escs caps its calls) (mkVm it1 (VInt (lenZ (@nil value)) :: [] ++ stk) svl esc escs caps (items0 :: its) calls)).
-    { eapply star_step. { rewrite (step_at c C _ _ _ _ _ _ _ _ _ H0). reflexivity. }
-      vmsimp. replace (S base) with (base + 1) by lia.
-      eapply star_trans; [exact S1|].
-      apply star_one. rewrite (step_at c C _ _ _ _ _ _ _ _ _ Hpl). cbn [exec_instr v_stk v_st]. rewrite E2. cbn [bind].
-      unfold svl, n0, it1. replace (base + 1 + length ci + 1) with (S (base + 1 + length ci)) by lia. reflexivity. }
-    assert (Hfr : frel 0 n0 s1 svl).
-    { unfold svl, frel, push_frame. cbn [s_clos s_out s_asks s_env]. repeat split; auto.
-      eexists. split; [reflexivity|]. repeat split; reflexivity. }
-    destruct (filter_sim fuel esc tgt fe it1 jf its n0 Hflt Hloop eq_refl _ _ _ _ E3 svl [] 0%Z stk escs caps calls Hfr)
-      as [(sv3 & i3 & S3 & F3)|(σo & S3 & O3)].
-    + left. destruct F3 as (A & Bq & D & fv & E5 & E6 & _ & _).
-      eapply star_trans; [exact S2|]. eapply star_trans; [exact S3|].
-      cbn [app].
-      step_by Hblk ltac:(rewrite E5, E6). apply code_at_tail in Hblk.
-      assert (Hp : pop_frame sv3 = s2).
-      { unfold pop_frame. rewrite E5, A, Bq, D. cbn [tl]. apply st_eta. }
-      rewrite Hp.
-      step_by Hblk ltac:(unfold lenZ; rewrite Z.add_0_l, Nat2Z.id, (pop_n_rev items stk []), app_nil_r).
-      apply code_at_tail in Hblk.
-      step_by Hblk ltac:(cbn [loop_items_of bind]; rewrite Hodd).
-      eapply star_eq; [constructor|]. f_equal.
-      cbn [length]. rewrite app_length. cbn [length]. rewrite app_length. rewrite app_length. cbn [length].
-      unfold jf, it1. lia.
-    + right. exists σo. split; [eapply star_trans; [exact S2|exact S3]|exact O3].
-  - (* without filter *)
-    inversion E3; subst items s2. left.
-    eapply star_trans. { eapply (sim_all c C fuel esc iter Hiter _ _ _ E1). eapply code_at_app_l; eauto. }
-    apply code_at_app_r in Hc.
-    step_by Hc ltac:(rewrite E2; cbn [bind]; rewrite Hodd).
-    eapply star_eq; [constructor|]. f_equal. rewrite app_length. cbn [length]. lia.
-Qed.
-
-Lemma lenZ_zero {A} (l : list A) : (lenZ l =? 0)%Z = match l with [] => true | _ => false end.
-Proof. destruct l; reflexivity. Qed.
-
-Lemma stmts_sim2 : forall fuel,
-  (forall inl t, l2_stmt inl t = true -> sim_stmt fuel inl t) /\
-  (forall inl l, forallb (l2_stmt inl) l = true -> sim_list fuel inl l).
-Proof.
-  induction fuel as [|fuel [IHs IHl]].
-  { split; intros inl x _ esc s sg s' He; discriminate. }
-  split.
-  - intros inl t Hw esc s sg s' He base lc stk escs caps its calls Hc Hin Hf.
-    destruct t; cbn [l2_stmt] in Hw; try discriminate; cbn [exec] in He.
-    + (* SRaw *) cbn [compile_stmt] in Hc |- *. inversion He; subst. eexists; split; [|left; reflexivity]. step_by Hc idtac. eapply star_eq; [constructor|]. f_equal. lens.
-    + (* SEmit *) cbn [compile_stmt] in Hc |- *.
-      bstep He p1 E1. destruct p1 as [v s1].
-      destruct (u_strictish (c_mode c) && is_strict_undef v) eqn:Eu; try discriminate. inversion He; subst.
-      eexists; split; [|left; reflexivity].
-      eapply star_trans. { eapply (sim_all c C fuel esc e Hw _ _ _ E1). eapply code_at_app_l; eauto. }
-      apply code_at_app_r in Hc. step_by Hc ltac:(rewrite Eu). eapply star_eq; [constructor|]. f_equal. lens.
-    + (* SIf *) cbn [compile_stmt] in Hc |- *.
-      apply andb_prop in Hw as [Harms Hels].
-      eapply (if_sim2 fuel esc els lc inl (IHl inl) Hels Hin arms Harms _ _ _ He); eauto.
-    + (* SFor *)
-      apply andb_prop in Hw as [Hw Hels]. apply andb_prop in Hw as [Hw Hbody]. apply andb_prop in Hw as [Hiter Hflt].
-      bstep He p1 E1. destruct p1 as [iv s1]. bstep He items0 E2. bstep He p3 E3. destruct p3 as [items s2]. bstep He s5 E4.
-      change (loop_items_of (c_mode c) iv = Ok items0) in E2.
-      assert (H6 : s_env (pop_frame s5) = s_env s).
-      { apply (for_scoped_proof c (S fuel) esc s t iter filter body recursive SigNormal).
-        cbn [exec]. rewrite E1. cbn [bind]. unfold loop_items_of in E2. rewrite E2. cbn [bind]. rewrite E3. cbn [bind].
-        rewrite E4. cbn [bind]. destruct items; reflexivity. }
-      rewrite compile_for_eq in Hc |- *.
-      set (pre := f_pre t iter filter recursive base) in *.
-      set (it := f_it t iter filter recursive base) in *. set (body_at := f_body_at t iter filter recursive base) in *.
-      set (loop_end := f_end t iter filter recursive body base) in *.
-      assert (Hit : it = base + length pre) by reflexivity.
-      assert (Hba : body_at = it + 1 + length (assign_code t)) by reflexivity.
-      assert (Hlen : loop_end = body_at + length (compile_stmts body body_at (Some (mkL it loop_end []))) + 1).
-      { unfold loop_end at 1, f_end. fold body_at. fold it. f_equal. f_equal.
-        unfold compile_stmts. apply (seq_len_indep body).
-        clear. induction body; constructor; auto using compile_len_indep. }
-      set (n := lenZ items) in *.
-      set (sv0 := push_frame s2 (mkFrame [] (Some ((-1)%Z, n, true)) None None false)).
-      destruct (pre_sim fuel esc t iter filter recursive base s iv s1 items0 items s2 stk escs caps its calls
-                  Hiter Hflt E1 E2 E3 ltac:(eapply code_at_app_l; eauto)) as [S12|(σo & S12 & O12)];
-        [|exists σo; split; [exact S12|right; exact O12]].
-      fold it n sv0 in S12.
-      apply code_at_app_r in Hc. rewrite <- Hit in Hc.
-      set (TAIL := match els with
-                   | None | Some [] => [IJump it; IPopLoopFrame]
-                   | Some eb => [IJump it; IPushDidNotIterate; IPopLoopFrame;
-                                 IJumpIfFalse (loop_end + 3 + length (compile_stmts eb (loop_end + 3) lc))]
-                                ++ compile_stmts eb (loop_end + 3) lc
-                   end) in *.
-      assert (HT : exists T', TAIL = IJump it :: T') by (unfold TAIL; destruct els as [[|x b]|]; eexists; reflexivity).
-      destruct HT as [T' HT].
-      assert (Hc3 : code_at C it (([IIterate loop_end] ++ assign_code t ++ compile_stmts body body_at (Some (mkL it loop_end [])) ++ [IJump it]) ++ T')).
-      { rewrite HT in Hc. rewrite <- !app_assoc. exact Hc. }
-      pose proof (code_at_app_r _ _ _ _ Hc3) as Hct. apply code_at_app_l in Hc3.
-      replace (it + length ([IIterate loop_end] ++ assign_code t ++ compile_stmts body body_at (Some (mkL it loop_end [])) ++ [IJump it]))
-        with loop_end in Hct by (rewrite !app_length; cbn [length]; lia).
-      (* the iterations *)
-      assert (Hh0 : head_rel 0 n (push_frame s2 (mkFrame [] (Some (0%Z, n, true)) None None false)) sv0).
-      { unfold sv0, push_frame. repeat split; cbn [s_clos s_out s_asks s_env]; auto.
-        eexists _, _, _. repeat split; reflexivity. }
-      destruct (loop_sim fuel esc t body n it loop_end body_at its (IHl true body Hbody) Hbody Hc3
-                  ltac:(reflexivity) Hlen items _ _ _ E4 sv0 stk escs caps calls Hh0) as [(sv5 & rest & S3 & T5)|(σo & S3 & O3)];
-        [|exists σo; split; [eapply star_trans; [exact S12|exact S3]|right; exact O3]].
-      destruct T5 as (A5 & B5 & D5 & E5 & fv5 & e5 & k5 & Ee5 & Ef5).
-      assert (Hpop : pop_frame sv5 = pop_frame s5).
-      { unfold pop_frame. rewrite A5, B5, D5, E5. reflexivity. }
-      assert (S0 : star (mkVm base stk s esc escs caps its calls) (mkVm loop_end stk sv5 esc escs caps (rest :: its) calls)).
-      { eapply star_trans; [exact S12|exact S3]. }
-      assert (Hf6 : lc_fits lc (length (s_env (pop_frame s5))) (length escs) (length caps)) by (rewrite H6; exact Hf).
-      subst TAIL.
-      destruct els as [[|x b]|].
-      * (* else present but empty *)
-        cbn [app] in HT; injection HT as HT'; subst T'.
-        assert (Hres : (sg, s') = (SigNormal, pop_frame s5)).
-        { destruct items; [eapply exec_list_nil; eauto|inversion He; reflexivity]. }
-        inversion Hres; subst sg s'. eexists; split; [|left; reflexivity].
-        eapply star_trans; [exact S0|].
-        step_by Hct ltac:(rewrite Ee5, Ef5). rewrite Hpop.
-        eapply star_eq; [constructor|]. f_equal.
-        rewrite ?app_length. cbn [length]. rewrite ?app_length. cbn [length]. rewrite ?app_length. cbn [length].
-        lia.
-      * (* else *)
-        cbn [app] in HT; injection HT as HT'; subst T'. cbn [app] in Hct.
-        set (ce := compile_stmts (x :: b) (loop_end + 3) lc) in *.
-        assert (Hce : length ce = length (compile_stmt x (loop_end + 3) lc)
-                        + length (compile_stmts b (loop_end + 3 + length (compile_stmt x (loop_end + 3) lc)) lc))
-          by (unfold ce, compile_stmts; cbn [seq_code]; rewrite app_length; reflexivity).
-        assert (Hcl : current_loop (s_env sv5) = Some (k5, n, true)) by (rewrite Ee5; cbn [current_loop]; rewrite Ef5; reflexivity).
-        pose proof (code_at_tail _ _ _ _ Hct) as Hct1. pose proof (code_at_tail _ _ _ _ Hct1) as Hct2.
-        pose proof (code_at_tail _ _ _ _ Hct2) as Hct3.
-        replace (S (S (S loop_end))) with (loop_end + 3) in Hct3 by lia.
-        assert (S4 : star (mkVm loop_end stk sv5 esc escs caps (rest :: its) calls)
-                          (mkVm (S (S loop_end)) (VBool (n =? 0)%Z :: stk) (pop_frame s5) esc escs caps its calls)).
-        { step_by Hct ltac:(rewrite Hcl). step_by Hct1 ltac:(rewrite Ee5, Ef5). rewrite Hpop. constructor. }
-        unfold n in S4. rewrite lenZ_zero in S4.
-        destruct items as [|it0 items'].
-        -- (* did not iterate: the else body runs *)
-           destruct (IHl inl (x :: b) Hels _ _ _ _ He (loop_end + 3) lc stk escs caps its calls Hct3 Hin Hf6) as [σ1 [S5 P5]].
-           exists σ1. split.
-           ++ eapply star_trans; [exact S0|]. eapply star_trans; [exact S4|].
-              eapply star_step; [|exact S5].
-              rewrite (step_at c C _ _ _ _ _ _ _ _ _ (code_at_head _ _ _ _ Hct2)). cbn [exec_instr v_stk v_st]. rewrite u_is_true_bool. cbn [bind]. unfold next. cbn [v_pc v_esc v_escs v_caps v_iters v_calls].
-              replace (S (S (S loop_end))) with (loop_end + 3) by lia. reflexivity.
-           ++ eapply postO_endpc; [|exact P5]. left. fold ce.
-              rewrite ?app_length. cbn [length]. rewrite ?app_length. cbn [length]. rewrite ?app_length. cbn [length].
-              lia.
-        -- inversion He; subst sg s'. eexists; split; [|left; reflexivity].
-           eapply star_trans; [exact S0|]. eapply star_trans; [exact S4|].
-           eapply star_step.
-           { rewrite (step_at c C _ _ _ _ _ _ _ _ _ (code_at_head _ _ _ _ Hct2)). cbn [exec_instr v_stk v_st]. rewrite u_is_true_bool. reflexivity. }
-           cbn [bind goto v_pc v_st v_esc v_escs v_caps v_iters v_calls].
-           eapply star_eq; [constructor|]. f_equal.
-           rewrite ?app_length. cbn [length]. rewrite ?app_length. cbn [length]. rewrite ?app_length. cbn [length].
-           lia.
-      * (* no else *)
-        cbn [app] in HT; injection HT as HT'; subst T'.
-        assert (Hres : (sg, s') = (SigNormal, pop_frame s5)) by (destruct items; inversion He; reflexivity).
-        inversion Hres; subst sg s'. eexists; split; [|left; reflexivity].
-        eapply star_trans; [exact S0|].
-        step_by Hct ltac:(rewrite Ee5, Ef5). rewrite Hpop.
-        eapply star_eq; [constructor|]. f_equal.
-        rewrite ?app_length. cbn [length]. rewrite ?app_length. cbn [length]. rewrite ?app_length. cbn [length].
-        lia.
-    + (* SSet *) cbn [compile_stmt] in Hc |- *.
-      bstep He p1 E1. destruct p1 as [v s1]. inversion He; subst. eexists; split; [|left; reflexivity].
-      eapply star_trans. { eapply (sim_all c C fuel esc e Hw _ _ _ E1). eapply code_at_app_l; eauto. }
-      apply code_at_app_r in Hc. step_by Hc idtac. eapply star_eq; [constructor|]. f_equal. lens.
-    + (* SSetBlock *) cbn [compile_stmt] in Hc |- *.
-      bstep He p1 E1. destruct p1 as [[sg1 txt] s1]. bstep E1 p2 E2. destruct p2 as [sg2 s2]. inversion E1; subst. clear E1.
-      pose proof (code_at_head _ _ _ _ Hc) as Hb. apply code_at_tail in Hc.
-      destruct (IHl inl body Hw _ _ _ _ E2 (base + 1) (enter_scope ClCapture lc) stk escs (s_out s :: caps) its calls
-                  ltac:(eapply code_at_app_l; eapply code_at_pc; [exact Hc|lia])
-                  ltac:(intros Hi; apply enter_some, Hin, Hi)
-                  ltac:(exact (fits_enter ClCapture lc _ _ _ Hf))) as [σ1 [S2 P2]].
-      assert (S1 : star (mkVm base stk s esc escs caps its calls) σ1).
-      { eapply star_step. { rewrite (step_at c C _ _ _ _ _ _ _ _ _ Hb). reflexivity. }
-        vmsimp. replace (S base) with (base + 1) in * by lia. exact S2. }
-      destruct P2 as [P2|O2]; [|exists σ1; split; [exact S1|right; exact O2]].
-      destruct sg1.
-      * cbn [post] in P2. subst σ1.
-        bstep He fv Ef. inversion He; subst. eexists; split; [|left; reflexivity].
-        eapply star_trans; [exact S1|].
-        replace (S base) with (base + 1) in * by lia.
-        apply code_at_app_r in Hc. step_by Hc idtac. apply code_at_tail in Hc.
-        destruct filter as [f|]; cbn [app] in Hc |- *.
-        -- step_by Hc ltac:(cbn [pop_n]; rewrite Ef). apply code_at_tail in Hc. step_by Hc idtac.
-           eapply star_eq; [constructor|]. f_equal. unfold compile_stmts. lens.
-        -- inversion Ef; subst. step_by Hc idtac.
-           eapply star_eq; [constructor|]. f_equal. unfold compile_stmts. lens.
-      * inversion He; subst. exists σ1. split; [exact S1|].
-        destruct (post_enter ClCapture SigBreak lc _ _ _ _ _ _ _ _ _ (fun l pc => unwound pc (lc_pending l) stk (with_out s2 (s_out s)) esc escs caps its calls) P2 ltac:(discriminate) ltac:(reflexivity)) as [l [-> ->]].
-        left. cbn [post]. eauto.
-      * inversion He; subst. exists σ1. split; [exact S1|].
-        destruct (post_enter ClCapture SigContinue lc _ _ _ _ _ _ _ _ _ (fun l pc => unwound pc (lc_pending l) stk (with_out s2 (s_out s)) esc escs caps its calls) P2 ltac:(discriminate) ltac:(reflexivity)) as [l [-> ->]].
-        left. cbn [post]. eauto.
-    + (* SWith *) cbn [compile_stmt] in Hc |- *.
-      apply andb_prop in Hw as [Hb Hbody].
-      bstep He s1 E1. bstep He p2 E2. destruct p2 as [sg2 s2]. inversion He; subst.
-      pose proof (code_at_head _ _ _ _ Hc) as Hp. apply code_at_tail in Hc.
-      replace (S base) with (base + 1) in * by lia.
-      pose proof (binds_sim c C fuel esc binds Hb _ _ E1 (base + 1) stk escs caps its calls ltac:(eapply code_at_app_l; eauto)) as S1.
-      apply code_at_app_r in Hc.
-      pose proof E1 as R1. apply with_binds_R in R1; [|apply eval_env_proof]. destruct R1 as [_ L1]. cbn [push_frame s_env length] in L1.
-      destruct (IHl inl body Hbody _ _ _ _ E2 _ (enter_scope ClFrame lc) stk escs caps its calls ltac:(eapply code_at_app_l; eauto)
-                  ltac:(intros Hi; apply enter_some, Hin, Hi)
-                  ltac:(rewrite L1; exact (fits_enter ClFrame lc _ _ _ Hf))) as [σ1 [S2 P2]].
-      assert (S0 : star (mkVm base stk s esc escs caps its calls) σ1).
-      { eapply star_step. { rewrite (step_at c C _ _ _ _ _ _ _ _ _ Hp). reflexivity. }
-        vmsimp. replace (S base) with (base + 1) in * by lia.
-        eapply star_trans; [exact S1|exact S2]. }
-      destruct P2 as [P2|O2]; [|exists σ1; split; [exact S0|right; exact O2]].
-      destruct sg.
-      * cbn [post] in P2. subst σ1. eexists; split; [|left; reflexivity].
-        eapply star_trans; [exact S0|].
-        apply code_at_app_r in Hc.
-        assert (Hne : s_env s2 <> []).
-        { apply exec_list_R in E2. destruct E2 as [_ B]. intros Z. rewrite Z in B. cbn in B. lia. }
-        destruct (s_env s2) as [|f0 r0] eqn:Eenv; [congruence|].
-        step_by Hc ltac:(rewrite Eenv).
-        eapply star_eq; [constructor|]. f_equal. unfold compile_stmts. lens.
-      * exists σ1. split; [exact S0|].
-        destruct (post_enter ClFrame SigBreak lc _ _ _ _ _ _ _ _ _ (fun l pc => unwound pc (lc_pending l) stk (pop_frame s2) esc escs caps its calls) P2 ltac:(discriminate) ltac:(reflexivity)) as [l [-> ->]].
-        left. cbn [post]. eauto.
-      * exists σ1. split; [exact S0|].
-        destruct (post_enter ClFrame SigContinue lc _ _ _ _ _ _ _ _ _ (fun l pc => unwound pc (lc_pending l) stk (pop_frame s2) esc escs caps its calls) P2 ltac:(discriminate) ltac:(reflexivity)) as [l [-> ->]].
-        left. cbn [post]. eauto.
-    + (* SFilterBlock *) cbn [compile_stmt] in Hc |- *.
-      bstep He p1 E1. destruct p1 as [[sg1 txt] s1]. bstep E1 p2 E2. destruct p2 as [sg2 s2]. inversion E1; subst. clear E1.
-      pose proof (code_at_head _ _ _ _ Hc) as Hb. apply code_at_tail in Hc.
-      destruct (IHl inl body Hw _ _ _ _ E2 (base + 1) (enter_scope ClCapture lc) stk escs (s_out s :: caps) its calls
-                  ltac:(eapply code_at_app_l; eapply code_at_pc; [exact Hc|lia])
-                  ltac:(intros Hi; apply enter_some, Hin, Hi)
-                  ltac:(exact (fits_enter ClCapture lc _ _ _ Hf))) as [σ1 [S2 P2]].
-      assert (S1 : star (mkVm base stk s esc escs caps its calls) σ1).
-      { eapply star_step. { rewrite (step_at c C _ _ _ _ _ _ _ _ _ Hb). reflexivity. }
-        vmsimp. replace (S base) with (base + 1) in * by lia. exact S2. }
-      destruct P2 as [P2|O2]; [|exists σ1; split; [exact S1|right; exact O2]].
-      destruct sg1.
-      * cbn [post] in P2. subst σ1.
-        bstep He fv Ef. inversion He; subst. eexists; split; [|left; reflexivity].
-        eapply star_trans; [exact S1|].
-        replace (S base) with (base + 1) in * by lia.
-        apply code_at_app_r in Hc. step_by Hc idtac. apply code_at_tail in Hc.
-        step_by Hc ltac:(cbn [pop_n]; rewrite Ef). apply code_at_tail in Hc.
-        step_by Hc ltac:(rewrite (do_filter_str_defined _ _ _ _ _ _ Ef), andb_false_r).
-        eapply star_eq; [constructor|]. f_equal. unfold compile_stmts. lens.
-      * inversion He; subst. exists σ1. split; [exact S1|].
-        destruct (post_enter ClCapture SigBreak lc _ _ _ _ _ _ _ _ _ (fun l pc => unwound pc (lc_pending l) stk (with_out s2 (s_out s)) esc escs caps its calls) P2 ltac:(discriminate) ltac:(reflexivity)) as [l [-> ->]].
-        left. cbn [post]. eauto.
-      * inversion He; subst. exists σ1. split; [exact S1|].
-        destruct (post_enter ClCapture SigContinue lc _ _ _ _ _ _ _ _ _ (fun l pc => unwound pc (lc_pending l) stk (with_out s2 (s_out s)) esc escs caps its calls) P2 ltac:(discriminate) ltac:(reflexivity)) as [l [-> ->]].
-        left. cbn [post]. eauto.
-    + (* SAutoEscape *) cbn [compile_stmt] in Hc |- *.
-      apply andb_prop in Hw as [Hv Hbody].
-      bstep He p1 E1. destruct p1 as [x s1]. bstep He esc' Ee.
-      change (derive_auto_escape x = Ok esc') in Ee.
-      pose proof (sim_all c C fuel esc v Hv _ _ _ E1 base stk escs caps its calls ltac:(eapply code_at_app_l; eauto)) as S1.
-      apply code_at_app_r in Hc. pose proof (code_at_head _ _ _ _ Hc) as Hp. apply code_at_tail in Hc.
-      replace (S (base + length (compile_expr v base))) with (base + length (compile_expr v base) + 1) in * by lia.
-      assert (Henv1 : s_env s1 = s_env s) by (eapply eval_env_proof; eauto).
-      destruct (IHl inl body Hbody _ _ _ _ He _ (enter_scope ClAutoEscape lc) stk (esc :: escs) caps its calls ltac:(eapply code_at_app_l; eauto)
-                  ltac:(intros Hi; apply enter_some, Hin, Hi)
-                  ltac:(rewrite Henv1; exact (fits_enter ClAutoEscape lc _ _ _ Hf))) as [σ1 [S2 P2]].
-      assert (S0 : star (mkVm base stk s esc escs caps its calls) σ1).
-      { eapply star_trans; [exact S1|].
-        eapply star_step. { rewrite (step_at c C _ _ _ _ _ _ _ _ _ Hp). cbn [exec_instr v_stk v_st]. rewrite Ee. reflexivity. }
-        vmsimp. replace (S (base + length (compile_expr v base))) with (base + length (compile_expr v base) + 1) in * by lia.
-        exact S2. }
-      destruct P2 as [P2|O2]; [|exists σ1; split; [exact S0|right; exact O2]].
-      destruct sg.
-      * cbn [post] in P2. subst σ1. eexists; split; [|left; reflexivity].
-        eapply star_trans; [exact S0|].
-        apply code_at_app_r in Hc. step_by Hc idtac.
-        eapply star_eq; [constructor|]. f_equal. unfold compile_stmts. lens.
-      * exists σ1. split; [exact S0|].
-        destruct (post_enter ClAutoEscape SigBreak lc _ _ _ _ _ _ _ _ _ (fun l pc => unwound pc (lc_pending l) stk s' esc escs caps its calls) P2 ltac:(discriminate) ltac:(reflexivity)) as [l [-> ->]].
-        left. cbn [post]. eauto.
-      * exists σ1. split; [exact S0|].
-        destruct (post_enter ClAutoEscape SigContinue lc _ _ _ _ _ _ _ _ _ (fun l pc => unwound pc (lc_pending l) stk s' esc escs caps its calls) P2 ltac:(discriminate) ltac:(reflexivity)) as [l [-> ->]].
-        left. cbn [post]. eauto.
-    + (* SBreak *) cbn [compile_stmt] in Hc |- *.
-      inversion He; subst. destruct lc as [l|]; [|exfalso; apply Hin; auto].
-      cbn [lc_fits] in Hf.
-      exists (unwound (lc_end l) (lc_pending l) stk s' esc escs caps its calls). split; [|left; cbn [post]; eauto].
-      pose proof (cleanup_sim (lc_pending l) base stk s' esc escs caps its calls Hf ltac:(eapply code_at_app_l; eauto)) as S1.
-      apply code_at_app_r in Hc.
-      eapply star_trans; [exact S1|]. apply star_one. apply unwound_jump. eapply code_at_head; eauto.
-    + (* SContinue *) cbn [compile_stmt] in Hc |- *.
-      inversion He; subst. destruct lc as [l|]; [|exfalso; apply Hin; auto].
-      cbn [lc_fits] in Hf.
-      exists (unwound (lc_iter l) (lc_pending l) stk s' esc escs caps its calls). split; [|left; cbn [post]; eauto].
-      pose proof (cleanup_sim (lc_pending l) base stk s' esc escs caps its calls Hf ltac:(eapply code_at_app_l; eauto)) as S1.
-      apply code_at_app_r in Hc.
-      eapply star_trans; [exact S1|]. apply star_one. apply unwound_jump. eapply code_at_head; eauto.
-  - intros inl l Hw esc s sg s' He base lc stk escs caps its calls Hc Hin Hf.
-    destruct l as [|t r]; cbn [exec_list] in He.
-    + inversion He; subst. eexists; split; [constructor|]. left. cbn. now rewrite Nat.add_0_r.
-    + cbn [forallb] in Hw. apply andb_prop in Hw as [Ht Hr].
-      bstep He p1 E1. destruct p1 as [sg1 s1].
-      unfold compile_stmts in Hc |- *. cbn [seq_code] in Hc |- *.
-      fold (compile_stmts r (base + length (compile_stmt t base lc)) lc) in Hc |- *.
-      destruct (IHs inl t Ht _ _ _ _ E1 base lc stk escs caps its calls ltac:(eapply code_at_app_l; eauto) Hin Hf) as [σ1 [S1 P1]].
-      apply code_at_app_r in Hc.
-      destruct P1 as [P1|O1]; [|exists σ1; split; [exact S1|right; exact O1]].
-      destruct sg1.
-      * cbn [post] in P1. subst σ1.
-        assert (Hf1 : lc_fits lc (length (s_env s1)) (length escs) (length caps)).
-        { apply exec_R_proof in E1. destruct E1 as [_ L]. rewrite L. exact Hf. }
-        destruct (IHl inl r Hr _ _ _ _ He _ lc stk escs caps its calls Hc Hin Hf1) as [σ2 [S2 P2]].
-        exists σ2. split; [eapply star_trans; eauto|].
-        eapply postO_endpc; [|exact P2]. left. rewrite app_length. lia.
-      * inversion He; subst. exists σ1. split; [exact S1|]. left. eapply post_endpc; [|exact P1]. right. discriminate.
-      * inversion He; subst. exists σ1. split; [exact S1|]. left. eapply post_endpc; [|exact P1]. right. discriminate.
-Qed.
-
-End SimStmt.
-
-(* ------------------------------------------------------------------------------------------ *)
-(* Part 4: whole templates                                                                      *)
-(* ------------------------------------------------------------------------------------------ *)
-Lemma code_at_whole C : code_at C 0 C.
+Lemma code_at_whole : code_at C 0 C.
 Proof. exists [], []. split; [now rewrite app_nil_r|reflexivity]. Qed.
 
-(* a sequence of steps that ends at the end of the code is a terminating run of eval_impl's loop *)
-Lemma star_run c C σ σ' : L2.Simulation.star c C σ σ' -> v_pc σ' = length C ->
-  exists n, run_vm c C n σ = Ok σ'.
+Lemma star_run σ σ' : L2.Simulation.star c C σ σ' -> v_pc σ' = length C -> exists n, run_vm c C n σ = Ok σ'.
 Proof.
   induction 1 as [σ|σ1 σ2 σ3 Hs _ IH]; intros Hend.
   - exists 1. cbn [run_vm]. rewrite Hend, Nat.leb_refl. reflexivity.
@@ -1657,7 +43,7 @@ Proof.
     apply Nat.leb_gt in Hlt. rewrite Hlt, Hs. exact Hn.
 Qed.
 
-Lemma star_run_err c C σ σ' k : L2.Simulation.star c C σ σ' -> step c C σ' = Err k -> exists n, run_vm c C n σ = Err k.
+Lemma star_run_err σ σ' k : L2.Simulation.star c C σ σ' -> step c C σ' = Err k -> exists n, run_vm c C n σ = Err k.
 Proof.
   induction 1 as [σ|σ1 σ2 σ3 Hs _ IH]; intros He.
   - exists 1. cbn [run_vm].
@@ -1670,23 +56,47 @@ Proof.
     apply Nat.leb_gt in Hlt. rewrite Hlt, Hs. exact Hn.
 Qed.
 
+Lemma overflow_run σo : L2.Simulation.star c C (init_vm c) σo -> overflow C σo -> exists n, run_template c n C = Err E_InvalidOperation.
+Proof.
+  intros S O. destruct (star_run_err _ _ _ S (overflow_step c C σo O)) as [n Hn].
+  exists n. unfold run_template. rewrite Hn. reflexivity.
+Qed.
+
+Lemma init_Inv : Inv C init_state.
+Proof. split; cbn; repeat constructor. Qed.
+End Top.
+
+(* whole templates; the program is the whole code *)
 Lemma template_sim c fuel body s :
+  cfg_ok (compile_template body) c -> wf_code (compile_template body) ->
   forallb (l2_stmt false) body = true -> Interp.run c fuel body = Ok s ->
   (exists n, run_template c n (compile_template body) = Ok s) \/
   (exists σo, L2.Simulation.star c (compile_template body) (init_vm c) σo /\ overflow (compile_template body) σo).
 Proof.
-  intros Hw Hr. unfold Interp.run in Hr. bstep Hr p E. destruct p as [sg s1]. inversion Hr; subst.
-  destruct (proj2 (stmts_sim2 c (compile_template body) fuel) false body Hw _ _ _ _ E 0 None [] [] [] [] []
-              (code_at_whole _) ltac:(discriminate) I) as [σ' [S1 [P1|O1]]]; [|right; exists σ'; split; assumption].
-  left. destruct sg; cbn [post] in P1; [|destruct P1 as [l [Hl _]]; discriminate|destruct P1 as [l [Hl _]]; discriminate].
-  subst σ'. destruct (star_run _ _ _ _ S1 eq_refl) as [n Hn].
+  intros Hcfg Hwf Hw Hr. unfold Interp.run in Hr. bstep Hr p E. destruct p as [sg s1]. inversion Hr; subst.
+  destruct (sim_levels c _ Hcfg Hwf fuel) as (_ & _ & _ & Sl).
+  destruct (Sl false body Hw _ _ _ _ E (init_Inv _) 0 None [] [] [] [] [] (code_at_whole _) ltac:(discriminate) I) as [σ' [S1 P1]].
+  destruct sg; cbn [post] in P1; [|destruct P1 as [l [Hl _]]; discriminate|destruct P1 as [l [Hl _]]; discriminate].
+  subst σ'. destruct (starO_inv _ _ _ _ S1) as [S2|(o & S2 & O)]; [left|right; eauto].
+  destruct (star_run _ _ _ _ S2 eq_refl) as [n Hn].
   exists n. unfold run_template, init_vm. rewrite Hn. reflexivity.
 Qed.
 
-(* what the overflow alternative means for the run: InvalidOperation at the counter of an accumulate loop *)
-Lemma overflow_run c C σo : L2.Simulation.star c C (init_vm c) σo -> overflow C σo ->
-  exists n, run_template c n C = Err E_InvalidOperation.
+Lemma data_vok C v : data_value v = true -> vok C v.
 Proof.
-  intros S O. destruct (star_run_err _ _ _ _ _ S (overflow_step c C σo O)) as [n Hn].
-  exists n. unfold run_template. rewrite Hn. reflexivity.
+  revert v. fix IH 1. intros v. destruct v; cbn [data_value]; intros H; try exact I; try discriminate.
+  apply vok_list. induction l as [|x r IHr]; cbn [forallb] in H; constructor; apply andb_prop in H as [H1 H2]; auto.
+Qed.
+
+(* the theorem for whole templates, with the two side conditions discharged: compiled code is well
+   formed, a context of plain data is fine *)
+Theorem template_correct c fuel body s :
+  forallb (fun p => data_value (snd p)) (c_root c) = true ->
+  forallb (l2_stmt false) body = true -> Interp.run c fuel body = Ok s ->
+  (exists n, run_template c n (compile_template body) = Ok s) \/
+  (exists σo, L2.Simulation.star c (compile_template body) (init_vm c) σo /\ overflow (compile_template body) σo).
+Proof.
+  intros Hd Hw Hr. eapply template_sim; eauto using wf_compile_template.
+  unfold cfg_ok, kvok. apply Forall_forall. intros p Hp. apply data_vok.
+  rewrite forallb_forall in Hd. apply Hd, Hp.
 Qed.
